@@ -12,501 +12,399 @@ Definition show_fres (r : fres) : string :=
   end.
 Definition check (rs : list rune) : string := digest (show_fres (format_res rs)).
 Definition full (rs : list rune) : string := show_fres (format_res rs).
-Eval vm_compute in ("<<<M1310>>>" ++ check (runes_of_ascii "
-packet Packet	{ char[7
-] rootA @lengthOf(// `tick` ""quote"" 'q'
-msg_type // trailing space 
-)`tab	here`
-, @lengthOf( msg_type
-)
-    falsey Header `tab	here` , match u8x as options1
-{ [ 42, ""1"", ""{,}"" ]: BodyLength , [ 1
-, // c
-""CRC32"" , 0 ,
-    007] : u	[// " ++ [27880; 37322]%N ++ runes_of_ascii "
-"""" ,
-// " ++ [27880; 37322]%N ++ runes_of_ascii "
-// @lengthOf(
-""a\\""
-// " ++ [128512]%N ++ runes_of_ascii " emoji
-// a // b
-,
-""" ++ [233]%N ++ runes_of_ascii "t" ++ [233]%N ++ runes_of_ascii """ ,7 ,
-""abc"",  """", 10 ,  ""abc""]
-    : metadata
-    , ""1"" :x_y_z
-    , ""x y"" :Packet }
-    ,
-lengthOf {// trailing space 
-match
-repeatCount as
-Packet
-{007 : Z9_ ,[ 65535
-, 65535 ] :msg_type
-,""{,}""  : tag ,
-}, repeat x
-msg_type, f32 Logon , } ,
-zchar[ 0
-]
-    //x
-    As
-    ,
-@tag(
-    42 //	t
-)@calculatedFrom(
-""\n"") f64 u128 @calculatedFrom( """ ++ [28040; 24687]%N ++ runes_of_ascii """ ) ,rootA ,
-    chars
-    u128
-, zchar {i64//	t
-i64_ ,
-    int32 i64_ @calculatedFrom(
-    ""// no comment""
-) ,
-    falsey	`doc`  ,	}
-, @leftPad ( '0' ) char packetx  @calculatedFrom( ""\n"" ) // packet A { u8 x, }
-`say ""hi""` , }
-packet roots { @calculatedFrom( ""a\\""
-    ) chars @calculatedFrom(
-    ""\n"" )`a\` ,
-    @calculatedFrom( ""CRC32"" )
-char[ // `tick` ""quote"" 'q'
-65535
-]roots
-,	@tag( 7 )  Logon u8x `{ , }`,match Foo
-    as // " ++ [128512]%N ++ runes_of_ascii " emoji
-Logon  {
-    ""`tick`""// a // b
-: uint8x,
-    """"
-    : leftPad /// triple
-, 3 :
-    leftPad ,
-1 : options1, } ,@lengthOf(uint8x
-    ) @leftPad ( '\x00' )
-    @rightPad	(
-    )
-u128
-``,
-rootA { //x
-match len as
-    float { 42
-    : trueish
-    , ""`tick`"" :Packet
-//x
-// @lengthOf(
-, 0123456789// a // b
-:
-    //
-    As
-, ""CRC32""
-: Header,
-} ,
-repeat string Z9_
-    `say ""hi""` , } , //	t
-@rightPad (
-' ') @lengthOf( repeatCount )i32 _x
-    `
-` , match
-    // a // b
-    Header
-as crc {	007 :	Z9_[ 4294967296
-    ,
-4294967296
-    ] : crc ,
-    10
-    :A
-,  [
-4294967296 , 3 ,
-7	, 42, 1
-    ,  7] : _x ,1 : uint8x
-}
-    , i8i8{ stringy
-@lengthOf( _x
-) `
-` ,
-    } ,
-    } packet repeatCount{
-@tag(	0)@calculatedFrom(""a\\"" )repeat
-    u32 T`
-`,matchKey pack, // `tick` ""quote"" 'q'
-options1 {// trailing space 
-match asx as
-o {
-    ""{,}"" : lengthOf,""a	b"" : lengthOf,10  :
-    calculatedFrom } ,
-    // a // b
-    i8i8 ,Pad@calculatedFrom( // @lengthOf(
-""{,}""
-    ) `// not a comment`  ,},
-    @tag(
-0123456789 ) // " ++ [27880; 37322]%N ++ runes_of_ascii "
-repeat int , uint32 asx	`a\` , } root
-    packet trueish {
-zchar[ 7 ] i64_ , } packet chars /// triple
-{ @rightPad(
-) //	t
-repeat char[255] lengthOf
-`line1
-line2`	, }
-")).
-Eval vm_compute in ("<<<M4245>>>" ++ check (runes_of_ascii "
-packet T{
-
-repeat
-zchar[
-007 
-]
-x_y_z
-    ,
-    repeat Logon
-{repeat	f32a
-`// not a comment`
-
-,
-	string 
-uint8x`crlf
-line`
-,}  //	t
-  ,
-
-    int64
-    len`// not a comment` ,
-match repeatCount
-
-    as
-// " ++ [27880; 37322]%N ++ runes_of_ascii "
-  x_y_z 
-{00
-
-    :
-	packetx
-	,[
-    ""CRC32""
-
-,
-
-    """ ++ [128512]%N ++ runes_of_ascii """
-]
-: 
-metadata 
-,
-00 	 // `tick` ""quote"" 'q'
-	  :  // trailing space 
-	metadata, }, repeat
-msg_type
-
-    { falsey 	 // c
-	{
-repeat
-
-len
-{
-match float
-as  stringy
-
-{ 
+Eval vm_compute in ("<<<M3694>>>" ++ check (runes_of_ascii "packet u {
+    @tag(007)
+    @calculatedFrom("""")
+    match i64_ as roots {
+        [""`tick`"", ""1"", 0, 3] : rootA,
+        //x
         // c
+        00 : pack,
+        [0123456789, 0123456789, ""1"", 255] : msg_type,
+        10 : chars,
+        ""it's"" : o,
+        /// triple
+    },
+    BodyLength {
+        char[255] metadata `
+                `,
+    },
+    options1 {
+        match asx as packetx {
+            ""abc"" : u128,
+            [3, 4294967296, """", """ ++ [28040; 24687]%N ++ runes_of_ascii """, 4294967296] : leftPad,
+            0 : Header,
+            """ ++ [233]%N ++ runes_of_ascii "t" ++ [233]%N ++ runes_of_ascii """ : T,
+        },
+        repeat char[] Z9_ `{ , }`,
+    },
+    @calculatedFrom(""packet"")
+    @calculatedFrom(""x y"")
+    @tag(255)
+    leftPad {
+        repeat leftPad {
+            float32 falsey @lengthOf(falsey) `a\`,
+            zchar[0] matchKey,
+            zchar[4294967296] a1,
+            match packetx as u {
+                [
+                    00, ""abc"", """ ++ [233]%N ++ runes_of_ascii "t" ++ [233]%N ++ runes_of_ascii """, 00, ""a\\"",
+                    ""{,}""
+                ] : BodyLength,
+                """ ++ [233]%N ++ runes_of_ascii "t" ++ [233]%N ++ runes_of_ascii """ : asx,
+                [""a	b"", 007] : body,
+                [00, 0123456789] : crc,
+            },
+        },
+    },
+    repeat uint8x o `doc`,
+    @tag(65535)
+    u16 Logon @lengthOf(uint8x) `a\`,
+    f32a {
+        repeat char[] matchKey `
+                `,
+        zchar[4294967296] i64_,
+        // packet A { u8 x, }
+        repeat lengthOf {
+            repeat i16 matchKey,
+            u8 falsey,
+            i32 Pad @lengthOf(u8x) ``,
+            charz `crlf
+                        line`,
+        },
+        packetx {
+            int64 trueish,
+            char[42] u @lengthOf(u) `// not a comment`,
+            repeat char[1] i8i8,
+            match x_y_z as u8x {
+                [""\n""] : calculatedFrom,
+            },
+        },
+    },
+    @leftPad('0')
+    As @calculatedFrom(""it's""),
+    @calculatedFrom(""CRC32"")
+    x_y_z @lengthOf(crc),
+    @leftPad('0')
+    @calculatedFrom(""`tick`"")
+    @tag(10)
+    char[42] Z9_ @calculatedFrom(""abc""),
+}
 
-[  
-      //
-	  // " ++ [128512]%N ++ runes_of_ascii " emoji
-  007
-,  ""packet"",007
+MetaData repeatCount {
+    i8 u `tab	here`,
+    char[255] u,
+    // @lengthOf(
+    u32 msg_type `doc`,
+    i64_ _x,
+}
 
-    , 
-""\n""
-,
-""abc"",1	,  4294967296  ]
+options {
+    repeatCount = 255;
+    x_y_z = ' ';
+    charz = uint8;
+    Packet = false
+    BodyLength = true;
+}
 
-    : 	 // " ++ [128512]%N ++ runes_of_ascii " emoji
-		matchKey
-	, 
-42
+options {
+    asx = """ ++ [128512]%N ++ runes_of_ascii """
+    uint8x = char[4294967296];
+    u = '0'
+}
+// trailing space ")).
+Eval vm_compute in ("<<<M3967>>>" ++ check (runes_of_ascii "packet u128 {
+    @calculatedFrom(""" ++ [128512]%N ++ runes_of_ascii """)
+    /// triple
+    // c
+    i64 charz `tab	here`,
+    @lengthOf(Header)
+    float32 a1 @calculatedFrom(""" ++ [128512]%N ++ runes_of_ascii """),
+    repeat string a1 `it's`,
+    @tag(42)
+    @tag(7)
+    zchar stringy,
+    float32 calculatedFrom `
+    `,
+}
 
-: 
-f32a// packet A { u8 x, }
+MetaData x {
+    // " ++ [27880; 37322]%N ++ runes_of_ascii "
+    Header x_y_z `
+    `,
+    int64 options1 `it's`,
+    char[] chars,
+    u16 options1,
+    u16 calculatedFrom `tab	here`,
+    char[0123456789] u,
+}
+
+root packet uint8x {
+    @rightPad('\x00')
+    char[7] asx,
+    int64 Pad @lengthOf(As) `crlf
+    line`,
+    msg_type @calculatedFrom(""`tick`""),
+    @calculatedFrom(""a\\"")
+    @rightPad(' ')
+    repeatCount `line1
+    line2`,
+    @tag(3)
+    int32 As `two words`,
+    @tag(1)
+    @calculatedFrom(""`tick`"")
+    @lengthOf(f32a)
+    match zchar as u {
+        0123456789 : leftPad,
+        ""\" ++ [233]%N ++ runes_of_ascii """ : _x,
+        7 : MetaDataX,
+        [4294967296] : stringy,
+        7 : uint8x,
+    },
+    @leftPad()
+    string Foo @lengthOf(MetaDataX) ``,//
+    match calculatedFrom as A {
+        [
+            255, 7, 1, 1, 42,
+            007, 007
+        ] : A,
+        [
+            ""a\\"", ""it's"", ""1"", 00, """ ++ [128512]%N ++ runes_of_ascii """,
+            ""{,}"", 42
+        ] : calculatedFrom,
+        ""it's"" : f32a,
+    },
+    repeat char[] i8i8,
+    leftPad,
+}
+
+packet _x {
+    char[] Z9_,
+    int64 options1 @calculatedFrom("""") `u8 x,`,
+    // `tick` ""quote"" 'q'
+    @calculatedFrom(""// no comment"")
+    match tag as roots {
+        [""abc""] : options1,
+        65535 : o,
+        ""// no comment"" : f32a,
+        ""packet"" : uint8x,
+    },
+    leftPad @calculatedFrom(""" ++ [233]%N ++ runes_of_ascii "t" ++ [233]%N ++ runes_of_ascii """),
+    repeat x,
+    zchar[65535] float `line1
+    line2`,
+    i16 uint8x,
+    zchar[10] uint8x,
+    @calculatedFrom(""abc"")
+    repeat x {
+        trueish `tab	here`,
+    },
+    @tag(1)
+    char[3] metadata `say ""hi""`,
+}")).
+Eval vm_compute in ("<<<M3627>>>" ++ check (runes_of_ascii "  // " ++ [27880; 37322]%N ++ runes_of_ascii "
+  packet	int	{ @tag( // a // b
+
+  0 )
+@rightPad( '0'
+	) @calculatedFrom(  ""CRC32"" ) zchar[	10	]
+	    //x
+
+float
+,	char[
+1 // " ++ [27880; 37322]%N ++ runes_of_ascii "
+	] float
+
+    `
+`
+,int8  i64_
+	@lengthOf(	// packet A { u8 x, }
+
+	u128 )
+`{ , }`
     ,
-[
-10 
-      // @lengthOf(
-    	// c
-  , ""a\\"" ]
-    : 
-a1
+uint32
+	rootA
+,float32
 
-    //
-  // " ++ [128512]%N ++ runes_of_ascii " emoji
-	  ,65535:tag 	 // trailing space 
-  ,	// `tick` ""quote"" 'q'
-  	}
+    _x
 
-,  }	// " ++ [27880; 37322]%N ++ runes_of_ascii "
+    ,	u8
+T	``
+    ,
+MetaDataX x `it's`
+	, char[] calculatedFrom , 	 // @lengthOf(
+    uint64 
+  // a // b
+	i8i8
 
-	,}  , u64 
-_x `two words`//x
-,pack
-,} ,
+`// not a comment`
+    ,
 
-    repeat  As  //
+} MetaData	lengthOf	{  
+  // trailing space 
+	// `tick` ""quote"" 'q'
+
+	leftPad
+leftPad, u32
+
+    a1
+	`it's` , Pad
+	Packet
+,  //	t
+	  uint8x
+leftPad
+
+    ,
+falsey
+roots
+`// not a comment`	,
+} packet
+A { 
+calculatedFrom
+
+@calculatedFrom(""CRC32""
+	) ``
+	,
+	repeat matchKey	{
+    string
+
+chars `two words`
+    ,// trailing space 
+stringy
+@calculatedFrom(	//	t
+    	""1"" ), 
+
+    // @lengthOf(
+    // " ++ [128512]%N ++ runes_of_ascii " emoji
+}  // c
+	, // packet A { u8 x, }
+
+	match
+trueish as	float
+    /// triple
+// " ++ [27880; 37322]%N ++ runes_of_ascii "
 
 {
+3 :
+	int 	 /// triple
+    [
+        // trailing space 
+	""" ++ [233]%N ++ runes_of_ascii "t" ++ [233]%N ++ runes_of_ascii """ ,
 
-    repeat	string
-	pack
-    ,uint8	// c
-    	leftPad
+""\n""	]
+    :  Logon  // @lengthOf(
+  ,
+    7 :
 
-    @lengthOf(As
+    metadata
+,
+    007 : 
+    //
+u, }  , 
+@lengthOf(
 
-) ,
-    string
-options1
+body
+) char[]
+    Logon  //
+  `tab	here`
+,	// trailing space 
+
 	@calculatedFrom(
 
-    ""// no comment""	/// triple
-	)
-
-`" ++ [28040; 24687; 31867; 22411]%N ++ runes_of_ascii "` 
-,
-    u8
-
-leftPad @lengthOf( 
-options1 ),	}
-
-// @lengthOf(
-  ,
-	} //
-	packet float
-
-    { @tag(
-    42	)//
-		repeat
-	int64
-
-    float`a\`	,
-@calculatedFrom(""// no comment""
-	)repeat i64_ 
-packetx
-
-    ,
-    match lengthOf as// a // b
-  falsey// @lengthOf(
-    {
-[
-
-    42 
-,
-    ""\" ++ [233]%N ++ runes_of_ascii """ , 
-10 ,
-10
-    ,	007  ,
-
-    ""abc""
-
-,
-1,
-	7 
-]:
-	metadata //	t
-,
-
-    } , repeat int ,repeatCount	,
-    zchar[255
-]
-
-x @lengthOf(
-A 
-	// c
-  	// @lengthOf(
-) ,
-	@leftPad(' '
-
-    )
-@lengthOf( o)@rightPad
-(
-	'\x00' ) 
-	// a // b
-    // @lengthOf(
-    repeat
-float64
-    leftPad
-
-    ,
-
-    @leftPad ('0'
+""\" ++ [233]%N ++ runes_of_ascii """
+)
+charz 	 // c
+	  @lengthOf(
+	i64_ 
+)
+	,  repeat i64 f32a ,repeat	u32 Foo`
+`
+	,  @calculatedFrom( ""1""
 
 ) 
-match i8i8
+repeat
+	int  {repeat  trueish
 
-as
-	// @lengthOf(
-	  charz
-{
-""" ++ [28040; 24687]%N ++ runes_of_ascii """
+    {  // trailing space 
+	repeat 
+f64 Foo	,
+	},
+}, // c
+	  char[]
+matchKey @lengthOf( x_y_z 
+) ,
 
-    :
-roots
-,
-},  @calculatedFrom( 
-      /// triple
-// packet A { u8 x, }
-	""abc""
-) repeat zchar[00 
-] matchKey, 	 // packet A { u8 x, }
-uint16
-/// triple
-    string_
-`doc`
-,
-	} 
-        //x
+    @rightPad( )  repeat
+	int64
+As  //	t
+  	,}
+
 ")).
-Eval vm_compute in ("<<<M3811>>>" ++ check (runes_of_ascii "root packet o {
-    @lengthOf(BodyLength)
-    uint64 string_ @calculatedFrom(""a\""b""),
-    repeat tag {
-        match crc as lengthOf {
-            ""{,}"" : i8i8,
-            255 : trueish,
-            // c
-            /// triple
-            [
-                10, 1, 0123456789, 4294967296, 00,
-                ""abc""
-            ] : body,
-        },
-        int32 uint8x @calculatedFrom(""// no comment""),// @lengthOf(
-        zchar[3] msg_type ``,
-        repeat float32 pack `it's`,
-    },
-    match u as _x {
-        00 : calculatedFrom,
-        255 : float,
-        ""\n"" : repeatCount,
-    },
-    @tag(3)
-    match A as Z9_ {
-        ""a\\"" : rootA,
-        ""// no comment"" : f32a,
-        [""x y""] : i64_,
-    },
-    x_y_z,
-    int32 f32a,// packet A { u8 x, }
-    @leftPad()
-    f32 roots,
-    @lengthOf(packetx)
-    @tag(255)
-    @tag(3)
-    i32 string_ @calculatedFrom(""" ++ [128512]%N ++ runes_of_ascii """) `doc`,
-    @leftPad()
-    int8 trueish @lengthOf(uint8x),
-    zchar[007] tag @calculatedFrom(""{,}""),
+Eval vm_compute in ("<<<M1402>>>" ++ check (runes_of_ascii "options {
+	StringPrefixLenType = u16;
+	ArrayPrefixLenType = u16;
 }
 
-packet leftPad {
-    string Foo,
-    metadata u8x,
-    msg_type `
-        `,
-    @leftPad()
-    repeat metadata {
-        //x
-        //	t
-        char[] i8i8 @calculatedFrom(""CRC32""),
-        char[1] rootA,
-        match falsey as zchar {
-            4294967296 : leftPad,
-        },// c
-        char[007] stringy @lengthOf(i64_) `a\`,// packet A { u8 x, }
+packet SampleBinary {
+    uint16 MsgType `" ++ [28040; 24687; 31867; 22411]%N ++ runes_of_ascii "`,
+    u16 BodyLenght @lengthOf(Body) `" ++ [28040; 24687; 20307; 38271; 24230]%N ++ runes_of_ascii "`,
+    match MsgType as Body {
+        1 : Logon,
+        2 : Logout,
+        3 : Heartbeat,
+        4 : RiskControlRequest,
+        5 : RiskControlResponse,
     },
-    @rightPad('0')
-    @lengthOf(x)
-    @calculatedFrom(""1"")
-    repeat roots,
-    char[] int @calculatedFrom(""" ++ [128512]%N ++ runes_of_ascii """) `a\`,
-    zchar[42] stringy,
-    @lengthOf(chars)
-    char[255] int,
-    crc @lengthOf(falsey) `line1
-        line2`,
-}")).
-Eval vm_compute in ("<<<M490>>>" ++ check (runes_of_ascii "root
-//
-// c
-packet
-As
-    { @calculatedFrom( ""{,}"" )
-// packet A { u8 x, }
-// @lengthOf(
-Header { repeat uint8 uint8x
-// a // b
-// @lengthOf(
-`// not a comment` ,
-    } ,@tag(3 ) repeat i64 i64_
-`it's`
-// a // b
-//	t
-, @lengthOf( i8i8
-// `tick` ""quote"" 'q'
-// trailing space 
-)  repeat i64
-    //x
-    metadata,repeat i8
-chars`a\`
-    // " ++ [27880; 37322]%N ++ runes_of_ascii "
-    , repeat zchar[ //x
-4294967296 ] x_y_z	, @leftPad( '0' /// triple
-)  char[ 42 ] options1, repeat
-o
-    , } root packet float {
-}	packet Packet {uint8x roots
-,
-zchar[ 0123456789 ]
-    msg_type `a\`, @calculatedFrom( """ ++ [233]%N ++ runes_of_ascii "t" ++ [233]%N ++ runes_of_ascii """
-)
-//
-// trailing space 
-repeat Packet {
-repeat int64 T  , repeat zchar[ 1 ]
-falsey`it's` ,
-    match leftPad as f32a {
-    // " ++ [128512]%N ++ runes_of_ascii " emoji
-    ""a\""b""
-:MetaDataX , [ 65535 ]
-    :
-rootA
-    , } , } , @tag(007 ) repeat char[
-4294967296//x
-] Z9_ , string Packet@calculatedFrom(
-""CRC32""  ) `u8 x,` ,} root
-    packet
-    x
-    {
-pack tag//x
-``, // `tick` ""quote"" 'q'
+        @calculatedFrom(""CRC32"")
+    u32 Ckecksum `" ++ [26657; 39564; 21644]%N ++ runes_of_ascii "`,
 }
-packet Z9_ { char[] BodyLength
-,
-    zchar @lengthOf( x  )	`" ++ [28040; 24687; 31867; 22411]%N ++ runes_of_ascii "`,
-uint8 float
-    // @lengthOf(
-    ,
-i64 u8x
-    , @lengthOf(
-leftPad
-)
-    //
-    int @lengthOf( lengthOf ) , zchar { zchar[ 0 ] Z9_ ,
-} ,
-float // `tick` ""quote"" 'q'
-`crlf
-line`
-, repeat Z9_ {  repeat options1 , i32 As
-,string stringy @lengthOf(
-leftPad
-// a // b
-// a // b
-)`" ++ [28040; 24687; 31867; 22411]%N ++ runes_of_ascii "` , } , char[10 ] x , int ,} // c")).
+
+packet Logon {
+     @leftPad('0')
+    char[10] UserName `" ++ [29992; 25143; 21517]%N ++ runes_of_ascii "`,
+    string Password `" ++ [23494; 30721]%N ++ runes_of_ascii "`,
+    uint64 ClientId `" ++ [23458; 25143; 31471]%N ++ runes_of_ascii "ID`,
+    u16 HeartbeatInterval `" ++ [24515; 36339; 38388; 38548]%N ++ runes_of_ascii "`,
+}
+
+packet Logout {
+      @rightPad('0')
+    char[10] UserName `" ++ [29992; 25143; 21517]%N ++ runes_of_ascii "`,
+    uint64 ClientId `" ++ [23458; 25143; 31471]%N ++ runes_of_ascii "ID`,
+}
+
+packet Heartbeat {
+}
+
+packet RiskControlRequest {
+    string UniqueOrderId `" ++ [21807; 19968; 35746; 21333; 21495]%N ++ runes_of_ascii "`,
+    char[16] ClOrdID `" ++ [23458; 25143; 35746; 21333; 21495]%N ++ runes_of_ascii "`,
+    char[3] MarketID `" ++ [24066; 22330]%N ++ runes_of_ascii "id`,
+    char[12] SecurityID `" ++ [35777; 21048; 20195; 30721]%N ++ runes_of_ascii "`,
+    char Side `" ++ [20080; 21334; 26041; 21521]%N ++ runes_of_ascii "`,
+    char OrderType `" ++ [35746; 21333; 31867; 22411]%N ++ runes_of_ascii "`,
+    u64 Price `" ++ [20215; 26684]%N ++ runes_of_ascii "`,
+    u32 Qty `" ++ [25968; 37327]%N ++ runes_of_ascii "`,
+    repeat string ExtraInfo `" ++ [38468; 21152; 20449; 24687]%N ++ runes_of_ascii "`,
+    repeat SubOrder {
+    		char[16] ClOrdID `" ++ [23376; 35746; 21333; 21495]%N ++ runes_of_ascii "`,
+    		u64 Price `" ++ [23376; 35746; 21333; 20215; 26684]%N ++ runes_of_ascii "`,
+    		u32 Qty `" ++ [23376; 35746; 21333; 25968; 37327]%N ++ runes_of_ascii "`,
+    	},
+}
+
+packet RiskControlResponse {
+    string UniqueOrderId `" ++ [21807; 19968; 35746; 21333; 21495]%N ++ runes_of_ascii "`,
+    i32 Status `" ++ [29366; 24577]%N ++ runes_of_ascii "`,
+    string Msg `" ++ [32467; 26524; 20449; 24687]%N ++ runes_of_ascii "`,
+    repeat Detail,
+}
+
+packet Detail {
+    string RuleName `" ++ [35268; 21017; 21517; 31216]%N ++ runes_of_ascii "`,
+    u16 Code `" ++ [21407; 22240; 20195; 30721]%N ++ runes_of_ascii "`,
+}")).
 Eval vm_compute in ("<<<M396>>>" ++ check (runes_of_ascii "packet Z9_	{	repeat charz{ match chars
 as T{ // trailing space 
 ""// no comment""//
@@ -565,1474 +463,1082 @@ i64 calculatedFrom@lengthOf( calculatedFrom ) `" ++ [28040; 24687; 31867; 22411]
 line2`
 ,
 }")).
-Eval vm_compute in ("<<<M1179>>>" ++ check (runes_of_ascii "MetaData crc
-// trailing space 
-// packet A { u8 x, }
-{Z9_  metadata
-`u8 x,`, }
-    packet // packet A { u8 x, }
-matchKey
-{	leftPad , string x ,
-    // " ++ [27880; 37322]%N ++ runes_of_ascii "
-    } packet x	{ match msg_type
-as MetaDataX//
-{ // @lengthOf(
-00
-:  roots , } , char[ 255
-]
-    // packet A { u8 x, }
-    falsey `" ++ [28040; 24687; 31867; 22411]%N ++ runes_of_ascii "`
-    //	t
-    , @lengthOf(
-    Logon	) @tag(
-42 ) @lengthOf( Foo
-)
-    repeat//	t
-char[ 1	] u,
-// packet A { u8 x, }
-//	t
-i8 chars
-@calculatedFrom( ""a\""b""
-// @lengthOf(
-// trailing space 
-),	@calculatedFrom(""" ++ [128512]%N ++ runes_of_ascii """ /// triple
-) @calculatedFrom( ""`tick`""
-) f64 Logon
-    ,
-@lengthOf(  calculatedFrom
-    ) //
-repeatCount
+Eval vm_compute in ("<<<M809>>>" ++ check (runes_of_ascii "packet	Logon
+{ @calculatedFrom(	""CRC32"" )
+    a1 , @lengthOf(
+    T  ) @lengthOf(
+metadata )len{ repeat Header
 {
-    repeat Packet`two words` , match  i64_ as
-charz{""a\\"" :
-int[	""\" ++ [233]%N ++ runes_of_ascii """ , 0123456789
-    , """ ++ [28040; 24687]%N ++ runes_of_ascii """
-]
-    :
-Pad
-, 1: As,""CRC32""
-:	Header ,
-},  char[ 007 // packet A { u8 x, }
-]
-tag
-`doc` , repeat As`" ++ [233]%N ++ runes_of_ascii "` , // c
-}
-,
-    MetaDataX @calculatedFrom("""")`line1
-line2`, // c
-} options{ _x=false
-As = zchar[ 65535
-]
-BodyLength= int64 o
-=	false ;
-calculatedFrom
-    =	'0' ;
-    } root	packet Packet { // @lengthOf(
-falsey Packet, @lengthOf(
-    BodyLength ) @lengthOf(uint8x
-) @rightPad (
-) string float	`// not a comment`, } 	 ")).
-Eval vm_compute in ("<<<M741>>>" ++ check (runes_of_ascii "options // packet A { u8 x, }
-{// @lengthOf(
-roots
-= false a1
-    = '0' // trailing space 
-; leftPad =true ;
-// a // b
-// " ++ [27880; 37322]%N ++ runes_of_ascii "
-Logon
-=
-    ""a	b""
-    // " ++ [128512]%N ++ runes_of_ascii " emoji
-    }
-    root packet	metadata
-    // packet A { u8 x, }
-    { tag @lengthOf( string_
-) `it's` , @leftPad (
-    ' '
-    ) @lengthOf(	trueish
-// a // b
-//
-)	@lengthOf(/// triple
-A )
-int64
-Packet
-@calculatedFrom( """" ) `
-`, u
-    f32a`` ,@calculatedFrom( ""abc""
-) @tag(255 )char[]
-//
-// a // b
-Logon @calculatedFrom(	""\" ++ [233]%N ++ runes_of_ascii """) , // trailing space 
-repeat char[ 7
-    ]a1
-    ,
-    char[] pack
-`u8 x,`
-    ,repeat
-    calculatedFrom `tab	here` , @tag(  1
-    ) u32 options1 , }options
-{ i8i8 =  4294967296 } packet // c
-roots {repeat charz x_y_z
-    , } packet
-msg_type  {
-@lengthOf( tag // c
-)
-i32
-Pad`" ++ [28040; 24687; 31867; 22411]%N ++ runes_of_ascii "` ,i64
-a1 ,metadata
-{repeat int8 float //	t
-, // `tick` ""quote"" 'q'
-Pad
-_x,
-f32 //
-pack ,
-// a // b
-// " ++ [27880; 37322]%N ++ runes_of_ascii "
-} ,
-    i8 repeatCount  , char
-matchKey , repeat trueish `u8 x,` ,
-    o // " ++ [128512]%N ++ runes_of_ascii " emoji
-leftPad ,
-char[] pack `it's` ,// c
-As{uint32  rootA @calculatedFrom(""it's"" ) `
-`, }
-,
-    // c
-    }")).
-Eval vm_compute in ("<<<M248>>>" ++ check (runes_of_ascii "packet
-Packet
-    {
-} packet repeatCount{@tag(	4294967296
-    ) @lengthOf(A  ) @lengthOf( float ) rootA ,
-@tag(0123456789  )
-Header
-    `// not a comment`,  matchKey
-    f32a
-    , Pad, repeat float32	uint8x
-    `" ++ [233]%N ++ runes_of_ascii "` ,@leftPad
-    ('\x00' )	repeat
-    char[3]
-tag `
-`, repeat
-pack {
-repeat x { repeat f64 len ,
-    i64_ len, }
-    ,
-repeatCount
-    // `tick` ""quote"" 'q'
-    @lengthOf(uint8x
-    ) , match	zchar  as a1 {
-// a // b
-// packet A { u8 x, }
-3: u ,
-},// packet A { u8 x, }
-repeat rootA
-{ options1 {
-repeat body u8x `crlf
-line`	, match Z9_ as
-    f32a{007
-:repeatCount ,
-    ""packet""
-: calculatedFrom
-    ,
-    // " ++ [128512]%N ++ runes_of_ascii " emoji
-    10 // `tick` ""quote"" 'q'
-: /// triple
-calculatedFrom
-    ,
-""CRC32""  :	_x , [	""x y""	] : i64_ , ""packet""
-// `tick` ""quote"" 'q'
-// a // b
-:// `tick` ""quote"" 'q'
-MetaDataX
-    ,  }
-// a // b
-// " ++ [27880; 37322]%N ++ runes_of_ascii "
-, } ,
-    //x
-    } , } ,  } MetaData// @lengthOf(
-asx {	u trueish ,chars // c
-f32a `// not a comment`	, float64 u128 , string_ string_ `
-` , }packet crc
-{ }")).
-Eval vm_compute in ("<<<M941>>>" ++ check (runes_of_ascii "packet Packet	{
-    u128 @calculatedFrom( ""// no comment"" // trailing space 
-) , zchar[ 255 ]repeatCount@lengthOf( Z9_
-    )`doc` ,repeat
-    matchKey { char[ 10]
-    msg_type @calculatedFrom(
-    ""a\\"" )
-    , zchar[ 255 ]
-    o @calculatedFrom( ""CRC32""// a // b
-)	,repeat zchar[00
-    ]Header `it's`
-,repeat asx
-    //
-    { BodyLength//x
-@lengthOf( // " ++ [27880; 37322]%N ++ runes_of_ascii "
-matchKey )
-`{ , }`
-, match metadata as//x
-a1 { 255 : calculatedFrom , 7 : u8x // @lengthOf(
-} , char[ 007 //x
-]  float
-    // trailing space 
-    , match charz as //	t
-u8x// trailing space 
-{
-""a\""b"" : Logon, }  ,} , } , repeat Foo
-    `crlf
-line`, @tag(
-    10 )
-rootA charz , int @lengthOf( a1 ) , }
-MetaData lengthOf {zchar[0 // `tick` ""quote"" 'q'
-] //	t
-uint8x , } packet
-len { }// @lengthOf(
-packet u
-    {match f32a as BodyLength{0
-: float
-, }	, } MetaData leftPad // trailing space 
-{ u32 f32a `doc` ,zchar[ 255 ] i64_ ,
-    char[]zchar  ,
-    // `tick` ""quote"" 'q'
-    T i64_
-`" ++ [233]%N ++ runes_of_ascii "`
-,
-    }
-")).
-Eval vm_compute in ("<<<M4006>>>" ++ check (runes_of_ascii "root packet matchKey {
-    match uint8x as x_y_z {
-        1 : falsey,
-    },
-}
-
-packet MetaDataX {
-    /// triple
-    float @calculatedFrom(""a\\"") `// not a comment`,
-    repeat stringy {
-        match repeatCount as a1 {
-            [""// no comment""] : metadata,
-            //	t
-            [4294967296, """ ++ [233]%N ++ runes_of_ascii "t" ++ [233]%N ++ runes_of_ascii """] : len,
-            [
-                4294967296, 10, 0, ""a\\"", ""packet"",
-                """ ++ [233]%N ++ runes_of_ascii "t" ++ [233]%N ++ runes_of_ascii """
-            ] : charz,
-            00 : i64_,
-            [7] : tag,
-            00 : falsey,
-        },
-    },
-    roots @calculatedFrom(""1"") `
-    `,
-    msg_type @lengthOf(stringy) `a\`,
-    int MetaDataX `doc`,
-    @calculatedFrom(""" ++ [128512]%N ++ runes_of_ascii """)
-    u64 int `say ""hi""`,
-}
-
-packet rootA {
-    asx @lengthOf(Foo) `a\`,
-    @leftPad(' ')
-    string Z9_,
-    crc @lengthOf(leftPad) `doc`,
-    repeat calculatedFrom u128 `{ , }`,//x
-    @calculatedFrom(""packet"")
-    @calculatedFrom(""\" ++ [233]%N ++ runes_of_ascii """)
-    i16 roots `doc`,
-}")).
-Eval vm_compute in ("<<<M1360>>>" ++ check (runes_of_ascii "root packet lengthOf // @lengthOf(
-{ } //x
-packet _x{//
-@calculatedFrom(//x
-""a	b"" )
-@tag( 65535// packet A { u8 x, }
-)
-    char[ 65535 ]
-// c
-// `tick` ""quote"" 'q'
-matchKey , }packet leftPad {
-u16
-leftPad	, @tag( 0123456789 )
-// " ++ [128512]%N ++ runes_of_ascii " emoji
-// @lengthOf(
-char[ 1 ] f32a @lengthOf( options1
-) , string_ BodyLength , Foo
-`" ++ [28040; 24687; 31867; 22411]%N ++ runes_of_ascii "`
-    //
-    ,@lengthOf(
-u128 ) i32 trueish @lengthOf( chars
-)
-`it's` ,
-    u8x	u8x  `{ , }` , match Foo
-    as leftPad
-{ // c
-0123456789: calculatedFrom}, @leftPad ('0' // c
-)int32	rootA	`crlf
-line`
-,	match BodyLength as
-pack
-{ [ 10
-    ] : stringy,
-10 :stringy 1 :u , } , match zchar as calculatedFrom
-{ """ ++ [128512]%N ++ runes_of_ascii """ :	len , }
-//x
-// trailing space 
-, } MetaData // packet A { u8 x, }
-Z9_
-{Pad As `line1
-line2`
-    // a // b
-    , Z9_ zchar , int8 repeatCount , i64_ trueish,
-A uint8x
-,// trailing space 
-leftPad Logon`two words`, } options { } 	 ")).
-Eval vm_compute in ("<<<M1290>>>" ++ check (runes_of_ascii "  packet len//	t
-{ @tag(255
-// packet A { u8 x, }
-// trailing space 
-) chars leftPad  ,
-repeat char[ 0123456789 ] o
-// `tick` ""quote"" 'q'
-// trailing space 
-`{ , }`  , falsey { f32a @lengthOf(metadata
-    ) `// not a comment`, //	t
-match pack // trailing space 
-as//	t
-asx{
-10	:	u128 ,
-} , } ,body Logon ,@calculatedFrom(""\" ++ [233]%N ++ runes_of_ascii """ ) u32 tag@lengthOf(
-uint8x ) `crlf
-line` ,  uint8x { zchar[ 10
-    ]  packetx @lengthOf(
-    pack// @lengthOf(
-) ,
-char[	4294967296]// trailing space 
-msg_type, }
-,
-string float `it's`	, @tag(0)
-    @tag( 42 ) u128 {repeat char[]
-BodyLength
-,match As as Logon{	[7
-// c
-//x
-, 1  , ""// no comment"", 00 // `tick` ""quote"" 'q'
-, """" , 0123456789 ]
-:	body , """ ++ [128512]%N ++ runes_of_ascii """ : Packet
-    , 42 :
-    u ""1""	: chars,
-} , }
-    , //	t
-repeat zchar[42	]u , }
-    //	t
-    packet stringy { body x,	} // trailing space ")).
-Eval vm_compute in ("<<<M4316>>>" ++ check (runes_of_ascii "packet i8i8 {
-    options1 @calculatedFrom(""packet"") `crlf
-        line`,
-    @rightPad(' ')
-    string lengthOf `" ++ [233]%N ++ runes_of_ascii "`,
-    u64 string_,
-}
-
-options {
-    options1 = false;
-}
-
-MetaData u {
-    a1 options1,
-    lengthOf x_y_z `line1
-        line2`,
-    MetaDataX rootA,
-    zchar[255] len,
-    char[007] int `say ""hi""`,
-    char[4294967296] stringy,
-}
-
-root packet u8x {
-    Z9_ @lengthOf(Packet),
-    @calculatedFrom(""packet"")
-    @rightPad('0')
-    @calculatedFrom(""it's"")
-    packetx `" ++ [28040; 24687; 31867; 22411]%N ++ runes_of_ascii "`,
-    float64 Packet @calculatedFrom(""`tick`"") `a\`,
-    @leftPad('0')
-    match len as rootA {
-        // `tick` ""quote"" 'q'
-        ""x y"" : uint8x,
-        ""1"" : asx,
-        ""a\""b"" : u8x,
-    },// " ++ [27880; 37322]%N ++ runes_of_ascii "
-    @lengthOf(tag)
-    trueish As,
-    @lengthOf(falsey)
-    zchar[1] a1,
-}
-
-root packet body {
-}")).
-Eval vm_compute in ("<<<M1313>>>" ++ check (runes_of_ascii "
-options { trueish =
-    4294967296 ; } root packet float { } packet Header{
-repeat Logon , @tag(
-    0123456789 )  uint8 asx  `say ""hi""` ,int@calculatedFrom( ""a	b"") // " ++ [27880; 37322]%N ++ runes_of_ascii "
-,
-repeat
-    Logon , } packet i64_{ /// triple
-repeat
-char[ 0123456789 ]
-metadata
-`u8 x,`,
-repeat
-f32
-    Packet , repeat crc {	int16 // trailing space 
-body
-    `" ++ [28040; 24687; 31867; 22411]%N ++ runes_of_ascii "` , int32 stringy,
-    // @lengthOf(
-    repeat char[ 65535
-]
-    // " ++ [128512]%N ++ runes_of_ascii " emoji
-    int ,
-    u64 zchar
-// " ++ [27880; 37322]%N ++ runes_of_ascii "
-// " ++ [128512]%N ++ runes_of_ascii " emoji
-, } , @rightPad
-    (	'\x00'  )	@calculatedFrom( ""abc"" )@rightPad ( ' '	)rootA o	, repeat string// a // b
-msg_type,
-//x
-/// triple
-char[
-3
-// `tick` ""quote"" 'q'
-/// triple
-]
-i8i8 `two words`
-//	t
-// trailing space 
-,@calculatedFrom( ""// no comment""	) /// triple
-f32a@lengthOf( Z9_) ,	}
-")).
-Eval vm_compute in ("<<<M3514>>>" ++ check (runes_of_ascii "
-options
-    {
-
-    LittleEndian
-	=
-false ;
-	StringPrefixLenType=
-u16 
-; ArrayPrefixLenType	= 
-u32 
-;	}
-packet	Order { uint8 x
-, repeat
-
-    string
-venue, }
-	packet
-    Heartbeat
-{ i64
-    count ,
-zchar[
-    1 ] Qty 
-,
-
-    repeat  InX29{ InSeqno26 {int64
-f1	,	char[
-
-5]Acct
-    , Order
-,} ,
-    repeat  InSide285
-
-    {
-    repeat  Order,  char[	10 ] Px , zchar[9 ] OrderId,} , char[]  venue 
-,Order
+    char[ 0123456789 ]float
+    `// not a comment` ,}
     , } ,
-@rightPad(	'\x00'
-
-    )	char[4
-    ]clOrdID
-	, }root
-
-    packet Party
-    { zchar[ 3
-	] 
-f1 ,u32
-
-    clOrdID
-,
-u32
-
-Px @lengthOf( Body ) ,
-    match
-clOrdID	as
-	Body	{ 
-[ 180
-
-    ,	64
-]: Heartbeat 
-,11
-	:
-Order
-    ,
-	}
-
-    ,
-u32
-    Side2 @calculatedFrom(	""CRC32"")
-
-, } ")).
-Eval vm_compute in ("<<<M3496>>>" ++ check (runes_of_ascii "// top
-packet // c0
-P1 {
-    // c2
-u8 // c3
-a // c4
-, // c5
-}
-    // c6
-packet P2 // c8
-{ // c9
-P1
-    // c10
-, // c11
-} packet // c13
-P3
-    // c14
-{ P2 // c16a
-  // c16b
-, P1
-    // c18
-, }
-    // c20
-packet // c21a
-  // c21b
-P4
-    // c22
-{ repeat P3
-    // c25
-,
-    // c26
-P2 // c27
-, // c28
-}
-    // c29
-root packet P5
-    // c32
-{ // c33
-P4 // c34a
-  // c34b
-, // c35a
-  // c35b
-P3 // c36
-, // c37
-P1 // c38
-, u8
-    // c40
-K , // c42
-match K // c44
-as
-    // c45
-Body // c46a
-  // c46b
-{ // c47
-4 : // c49
-P4 // c50
-, 3
-    // c52
-:
-    // c53
-P3 , 2
-    // c56
-: // c57a
-  // c57b
-P2
-    // c58
-, // c59
-1
-    // c60
-: // c61
-P1 , } // c64
-, // c65
-}
-    // c66
-")).
-Eval vm_compute in ("<<<M1386>>>" ++ check (runes_of_ascii "packet
-Packet
-{ MetaDataX @calculatedFrom( ""abc""), i32 zchar
-    ,
-    // c
-    @calculatedFrom( """ ++ [128512]%N ++ runes_of_ascii """ )
-    repeat x_y_z `tab	here`
-, len
-@calculatedFrom(""`tick`"" ) `{ , }` ,repeat
-char[ 7 ]	asx `
-` ,@tag(7
-//	t
+    // `tick` ""quote"" 'q'
+    @leftPad (
+)	char[ 7
+    ]
+    x	@calculatedFrom( ""it's"")  ,  char[ 7 ] calculatedFrom , // trailing space 
+char[]o @calculatedFrom( ""x y"" ) ,
+@lengthOf( matchKey )match
+    //	t
+    options1 as	Logon {
+    42 :
+roots, }
+    , @tag(3//
+)int64 MetaDataX ,@calculatedFrom( ""CRC32"" ) @calculatedFrom(""x y""
+    ) char[ 10
+] chars@calculatedFrom( ""packet"" ) `// not a comment`
+, match pack as i8i8{	[
+00] : crc , [ 0,// packet A { u8 x, }
+""it's"" , 7 , 255
+    // a // b
+    ]: trueish [ ""a	b"",// `tick` ""quote"" 'q'
+4294967296 , 1,
 // packet A { u8 x, }
-) repeat
-int64 // " ++ [128512]%N ++ runes_of_ascii " emoji
-x// trailing space 
-, uint32 f32a
-`u8 x,`, }
-    packet uint8x{match body as u{ [ 10 ]
-    : repeatCount,
-[ 4294967296 ] :metadata
-    ,
-} ,repeat x_y_z{
-u8 MetaDataX@lengthOf( packetx )
-    `" ++ [233]%N ++ runes_of_ascii "`
-, } ,
-float32 body ,// " ++ [27880; 37322]%N ++ runes_of_ascii "
+// packet A { u8 x, }
+42
+,
+0 , ""`tick`""] :
+    Z9_
+    /// triple
+    ,10
+:options1, } , } packet repeatCount { int8
+    falsey@calculatedFrom(
+""" ++ [233]%N ++ runes_of_ascii "t" ++ [233]%N ++ runes_of_ascii """
+)
+    , }
+options{// a // b
+trueish
+//x
+/// triple
+= zchar[ 255
+]	}root packet uint8x
+// c
+/// triple
+{}
+packet
+    rootA {	zchar[ 0 ] leftPad @calculatedFrom(""""
+    // trailing space 
+    )
+    `say ""hi""` ,
+}
+")).
+Eval vm_compute in ("<<<M1311>>>" ++ check (runes_of_ascii "root packet body{
+    // `tick` ""quote"" 'q'
+    @tag(
+    10
+)repeat // trailing space 
+len { // c
 repeat
-BodyLength string_ , char string_
-    `line1
-line2`	, @tag( 7) char[] len @calculatedFrom( """ ++ [233]%N ++ runes_of_ascii "t" ++ [233]%N ++ runes_of_ascii """) , repeat float32 _x ,
-Header uint8x
-`it's` , }
+    i32
+BodyLength ,	zchar[ 0123456789
+    ]trueish@lengthOf(tag )/// triple
+, }
+, u64 rootA ,
+@tag( 0123456789 //
+)
+    char[ 1
+] i64_
+`
+` ,@tag(//	t
+0123456789)repeat
+    char[]_x
+    ,
+    @tag(
+7 ) zchar[// packet A { u8 x, }
+0 ] calculatedFrom
+    @lengthOf(repeatCount ) , match i64_
+// a // b
+//
+as Packet { 3 : charz,[
+    ""a\\""] : options1, [
+""`tick`"" ,  0123456789 , 4294967296 ,  ""a	b"", 0123456789  ,""x y"" , """ ++ [128512]%N ++ runes_of_ascii """ ,""x y""] :
+    _x	, ""a\""b""  :
+    pack , ""it's""	:
+crc,} , }
+MetaData i8i8 {
+f32 u ,} packet A{ zchar[42
+    ] Pad ,
+    u128 , @calculatedFrom( ""x y"") repeat // `tick` ""quote"" 'q'
+u16 u ,
+    char[00 ]/// triple
+u128  , //	t
+repeat char[] u8x `doc` , }packet _x
+    { @lengthOf( rootA ) @tag( 3 )uint32	msg_type ,	options1
+    u128 ,char[] Pad
+, @tag(
+007 )  f32a @lengthOf(lengthOf ) `// not a comment` , }
+packet // @lengthOf(
+metadata
+    { @leftPad ( '0' ) @tag(0123456789 ) @rightPad (
+    ) f32a,
+    } 	 ")).
+Eval vm_compute in ("<<<M375>>>" ++ check (runes_of_ascii "
+options{ MetaDataX= ' '
+//	t
+// trailing space 
+; trueish = """ ++ [233]%N ++ runes_of_ascii "t" ++ [233]%N ++ runes_of_ascii """ ;
+    /// triple
+    } packet BodyLength{@lengthOf( repeatCount ) char[65535 ]
+    crc @calculatedFrom(
+    """"
+),zchar[0 ]
+x_y_z @calculatedFrom( ""packet"" )`a\` , } packet Header	{	repeat
+    // " ++ [128512]%N ++ runes_of_ascii " emoji
+    T
+{
+//x
+//x
+u128 chars , }, match Pad as
+    crc{ ""a\""b"" :	x , }
+    ,
+    @lengthOf(	rootA
+) @lengthOf(
+stringy )
+i32
+    // a // b
+    x
+,
+    @calculatedFrom( """ ++ [128512]%N ++ runes_of_ascii """
+) int8	u @lengthOf(
+    Pad
+) `doc` , @tag(
+65535)charz { a1
+_x,
+repeat	float32 Header `say ""hi""` ,char u , } ,
+    //x
+    @leftPad ( )
+@leftPad (
+    '0' ) @rightPad( '\x00'
+    )
+    match falsey as As { // " ++ [128512]%N ++ runes_of_ascii " emoji
+""a\\"": pack } /// triple
+,repeat metadata , match i8i8 as u {
+[ 4294967296 ,
+    42 ] // @lengthOf(
+: uint8x ,}  , repeat uint16
+    chars
+// " ++ [27880; 37322]%N ++ runes_of_ascii "
+// @lengthOf(
+`u8 x,` ,
+u16 repeatCount`crlf
+line` ,
+} packet
+    tag {
+    char[ 7 ]// `tick` ""quote"" 'q'
+trueish  , int8
+    string_ ``
+// @lengthOf(
+// @lengthOf(
+,
+    } 	 ")).
+Eval vm_compute in ("<<<M867>>>" ++ check (runes_of_ascii "packet rootA
+    {@calculatedFrom(	""// no comment"" )repeat roots
+`tab	here` , u8x len ,
+    u8x``	,@lengthOf(o )@tag(0) repeat char[] options1
+    , int32 o `" ++ [233]%N ++ runes_of_ascii "`
+, @tag(00) uint16 int , } packet BodyLength {
+@tag( 4294967296  )
+    repeat
+// trailing space 
+/// triple
+zchar[ 1] Z9_ , uint32 leftPad @calculatedFrom( """ ++ [28040; 24687]%N ++ runes_of_ascii """)// packet A { u8 x, }
+, i8 f32a , repeat u8 lengthOf, Header
+{ leftPad ,	repeat stringy { msg_type @lengthOf(  body ) `crlf
+line` ,repeat
+    packetx `say ""hi""`
+// c
+//
+, o ,} , } , repeat int8 f32a `{ , }` // @lengthOf(
+, Z9_
+// packet A { u8 x, }
+// trailing space 
+, body , match tag as
+    //
+    zchar{10 :
+lengthOf , 10
+    : i64_ ,65535:len , 1 :
+msg_type,	""\n""	: Foo , 10:
+zchar
+    ,
+}
+,repeat lengthOf {// `tick` ""quote"" 'q'
+int64 lengthOf @calculatedFrom(""packet"" ) ,
+    repeat calculatedFrom
+    A , repeat char uint8x
+,
+    As	{	stringy
+    // " ++ [128512]%N ++ runes_of_ascii " emoji
+    `it's` ,	} , } // trailing space 
+,
+    //x
+    }
 ")).
-Eval vm_compute in ("<<<M3534>>>" ++ check (runes_of_ascii "options {
-    LittleEndian = true;
-    FixedStringPadFromLeft = true;
-    FixedStringPadChar = '0';
-}
-packet Trade {
-    string clOrdID,
-    char[] Px,
-    u32 x,
-}
-packet Reject {
-    int32 Side2,
-    repeat char[3] clOrdID,
-    i32 tag7,
-}
-packet Leg {
-}
-root packet Quote {
-    string Side2,
-    string lastPx,
-    InSym58 {
-        int16 OrderId,
-        Reject,
-        i8 Qty,
-        i64 venue,
-        f32 Note,
-    },
-    char[] count,
-    zchar[9] price,
-    u16 Qty,
-    match Qty as Body {
-        69 : Leg,
-        48 : Trade,
-        51 : Reject,
-    },
-    u16 Acct @calculatedFrom(""CR\
-C32""),
-}
+Eval vm_compute in ("<<<M307>>>" ++ check (runes_of_ascii "options {
+    string_	= zchar[ 00
+    ]
+;}
+    packet falsey { @lengthOf( float	) string o // c
+,repeat msg_type , match MetaDataX as _x
+    { 3: Pad ,
+    }, leftPad@lengthOf(i8i8 //
+) , @tag(
+0123456789
+    )
+    i16 Packet `
+`
+,o pack `tab	here` ,zchar[ 10
+] int
+    , int16 Foo
+//	t
+// " ++ [128512]%N ++ runes_of_ascii " emoji
+@calculatedFrom(
+    ""CRC32"" )
+`u8 x,` , match f32a as	u8x
+{[ ""{,}""] : T, [ ""1""
+, 65535 ,3 , 0 ,/// triple
+""`tick`""
+    , 0123456789 ,""" ++ [128512]%N ++ runes_of_ascii """ , ""a\\"" ] :uint8x  , 255 : a1  , ""a	b""	: falsey """ ++ [28040; 24687]%N ++ runes_of_ascii """ : x
+    // " ++ [128512]%N ++ runes_of_ascii " emoji
+    , //	t
+[
+    ""packet""
+// c
+//	t
+,3
+    ]
+:
+int , } ,
+repeat Foo /// triple
+{  zchar[1
+]body ``  , roots
+    rootA ,	char[ 0] rootA `doc`, }	,
+    }// `tick` ""quote"" 'q'
+options{
+    } options { Header = int16
+; roots = false ; repeatCount/// triple
+=
+    uint8; stringy
+=	""x y"" ;leftPad = ""it's"";
+    } MetaData u {	string_// trailing space 
+Header
+, zchar[ 3 ] i64_, }
 ")).
-Eval vm_compute in ("<<<M4338>>>" ++ check (runes_of_ascii "// " ++ [128512]%N ++ runes_of_ascii " emoji
-packet int {
-    match zchar as _x {
-        [4294967296] : x_y_z,
-        [""a\""b""] : chars,
-        [""it's"", ""\" ++ [233]%N ++ runes_of_ascii """, ""packet"", ""{,}""] : f32a,
+Eval vm_compute in ("<<<M3558>>>" ++ check (runes_of_ascii "// top
+options // c0
+{
+    // c1
+LittleEndian // c2a
+  // c2b
+= // c3a
+  // c3b
+true // c4a
+  // c4b
+; // c5
+} // c6
+packet
+    // c7
+Logon // c8
+{ // c9
+u8 // c10
+x // c11a
+  // c11b
+, // c12
+} // c13a
+  // c13b
+packet Logout
+    // c15
+{
+    // c16
+u16 reason // c18
+, } // c20
+root // c21
+packet Frame // c23a
+  // c23b
+{ // c24a
+  // c24b
+i32 // c25
+Kind // c26a
+  // c26b
+, // c27a
+  // c27b
+i32
+    // c28
+Kind2 // c29a
+  // c29b
+, match Kind // c32
+as // c33
+Body // c34a
+  // c34b
+{ 1 // c36
+: Logon ,
+    // c39
+[ 2 , // c42
+3 // c43
+,
+    // c44
+4 // c45a
+  // c45b
+]
+    // c46
+:
+    // c47
+Logout // c48
+, 100
+    // c50
+: Logon
+    // c52
+, // c53a
+  // c53b
+}
+    // c54
+, // c55a
+  // c55b
+match // c56a
+  // c56b
+Kind2 as
+    // c58
+Trailer // c59a
+  // c59b
+{ // c60a
+  // c60b
+0
+    // c61
+: // c62
+Logout // c63
+, } , // c66
+} ")).
+Eval vm_compute in ("<<<M3624>>>" ++ check (runes_of_ascii "packet o {
+    repeat char[65535] rootA,
+}
+
+packet repeatCount {
+    @tag(10)
+    @lengthOf(_x)
+    repeat int64 f32a `" ++ [233]%N ++ runes_of_ascii "`,
+    @leftPad('0')
+    @leftPad(' ')
+    @tag(3)
+    // trailing space 
+    o `doc`,
+    // a // b
+    @calculatedFrom("""")
+    string o,
+    @lengthOf(msg_type)
+    match A as T {
+        [
+            ""packet"", ""a\\"", 1, 10, ""x y"",
+            3
+        ] : leftPad,
+        ""packet"" : calculatedFrom,
+        //	t
+        [255] : o,
+        42 : int,
     },
-    x {
-        repeat asx {
-            zchar[0123456789] crc `crlf
-            line`,
-            msg_type i8i8 `crlf
-            line`,
-            uint16 rootA @calculatedFrom(""a\\""),
-            Logon x_y_z `" ++ [233]%N ++ runes_of_ascii "`,
+    Z9_ float `a\`,
+    char[] u,
+    @lengthOf(i64_)
+    string A @lengthOf(int) `it's`,
+    @rightPad('0')
+    roots {
+        pack @lengthOf(As) `crlf
+        line`,// c
+        zchar[00] zchar @lengthOf(u8x),
+    },
+    @tag(0)
+    @rightPad()
+    @calculatedFrom(""" ++ [128512]%N ++ runes_of_ascii """)
+    f32a lengthOf `{ , }`,
+}
+// `tick` ""quote"" 'q'")).
+Eval vm_compute in ("<<<M4090>>>" ++ check (runes_of_ascii "packet Pad {
+    char[007] string_,// @lengthOf(
+    @lengthOf(zchar)
+    string rootA,
+    @lengthOf(T)
+    char trueish @lengthOf(zchar) `line1
+        line2`,
+    repeat f64 calculatedFrom,
+    @calculatedFrom(""it's"")
+    leftPad `it's`,
+    stringy {
+        int8 Packet @lengthOf(metadata) `tab	here`,
+        A,
+        match charz as uint8x {
+            3 : MetaDataX,
+            1 : charz,
+            ""a	b"" : msg_type,
+            //x
+            [0, 10, ""// no comment"", ""\" ++ [233]%N ++ runes_of_ascii """] : A,
+            // @lengthOf(
+            ""\n"" : trueish,
         },
+    },
+    @calculatedFrom(""a\\"")
+    char[7] u @calculatedFrom(""a\\""),
+    //	t
+    @tag(7)
+    o {
+        As `it's`,
     },
 }
 
 packet u {
-    match pack as trueish {
-        ""1"" : len,
-        """ ++ [128512]%N ++ runes_of_ascii """ : leftPad,
-        4294967296 : metadata,
-    },
-    int T `line1
-    line2`,
-    f32 Logon,
 }
 
-options {
+packet stringy {
+    @tag(0123456789)
+    string pack @lengthOf(Pad),
 }")).
-Eval vm_compute in ("<<<M433>>>" ++ check (runes_of_ascii "options {
-    Packet = string } root
-    //	t
-    packet  trueish{ // a // b
-@calculatedFrom( ""packet""	) i64 trueish`// not a comment`
-,match MetaDataX as rootA
-// trailing space 
-// a // b
-{
-[ ""packet"" , """ ++ [28040; 24687]%N ++ runes_of_ascii """ ,// " ++ [27880; 37322]%N ++ runes_of_ascii "
-42] :uint8x 0123456789
-    // a // b
-    : int
-// trailing space 
-//x
-, }
-,
-    @rightPad ( '0' )match metadata as
-uint8x {
-255 :
-    len
-0
-:Packet,""a\""b"" :i8i8
-, } /// triple
-, match
-msg_type as repeatCount { ""CRC32"":
-x_y_z , [ ""a	b""
-, ""\" ++ [233]%N ++ runes_of_ascii """, 7, ""it's""
-,  1 , 7 ]
-:
-// c
-// trailing space 
-As // @lengthOf(
-,
-},
-    }
-
-")).
-Eval vm_compute in ("<<<M1181>>>" ++ check (runes_of_ascii "  options
-{	Z9_ = ""// no comment"" Foo
-= ""\n""
-    // c
-    i64_
-    = false _x = """ ++ [128512]%N ++ runes_of_ascii """ ; }packet pack { zchar[4294967296 ] float@lengthOf(repeatCount ) , match //x
-Header as len{ [""`tick`"" ] :charz ""it's"": MetaDataX ""it's"" : string_,[	""a	b"" , ""\n"",	1 ]
-    : zchar} , } packet uint8x // trailing space 
-{ @tag(
-007)repeat
-    calculatedFrom  `two words`// c
-,} packet uint8x {
-i16
-    trueish @lengthOf( Z9_) // " ++ [27880; 37322]%N ++ runes_of_ascii "
-, @calculatedFrom(""a\""b""
-    )@lengthOf(u8x ) roots , uint64 chars@lengthOf(tag )//
-`` , }
-")).
-Eval vm_compute in ("<<<M3260>>>" ++ check (runes_of_ascii "// top
-MetaData // c0
-x_y_z // c1
-{ // c2
-char // c3
-body // c4
-, // c5
-f64 // c6
-i8i8 // c7
-`two words` // c8
-, // c9
-body // c10
-body // c11
-`" ++ [28040; 24687; 31867; 22411]%N ++ runes_of_ascii "` // c12
-, // c13
-} // c14
-root // c15
-packet // c16
-chars // c17
-{ // c18
-@lengthOf( // c19
-i64_ // c20
-) // c21
-chars // c22
-, // c23
-i8i8 // c24
-{ // c25
-falsey // c26
-@lengthOf( // c27
-stringy // c28
-) // c29
-`doc` // c30
-, // c31
-} // c32
-, // c33
-x // c34
-@lengthOf( // c35
-A // c36
-) // c37
-`crlf
-line` // c38
-, // c39
-} // c40
-")).
-Eval vm_compute in ("<<<M379>>>" ++ check (runes_of_ascii "
-root
-packet
-falsey	{ @tag( 0123456789
-    ) @tag( 3 )
-Pad { rootA ,
-//x
-// a // b
-x { repeat int {
-// " ++ [128512]%N ++ runes_of_ascii " emoji
-// @lengthOf(
-match f32a as crc
-{
-[ """ ++ [128512]%N ++ runes_of_ascii """ ,""packet""] : metadata ,//	t
-[ 42,  ""abc"" , 00
-    ,""a\\""
-]
-    // a // b
-    ://x
-metadata ,
-[""a\""b""
-] : Header , ""\n""
-: asx } , } ,
-    x_y_z @calculatedFrom(""1""// " ++ [128512]%N ++ runes_of_ascii " emoji
-),
-zchar[ 42
-    ]
-    string_ `` // packet A { u8 x, }
-,	matchKey	pack ,} ,
+Eval vm_compute in ("<<<M3524>>>" ++ check (runes_of_ascii "options {
+    LittleEndian = false;
+    StringPrefixLenType = u16;
+    ArrayPrefixLenType = u32;
 }
-, @lengthOf( Logon )
-@leftPad
-    ('\x00' )
-As u8x , }")).
-Eval vm_compute in ("<<<M1355>>>" ++ check (runes_of_ascii "
-MetaData asx// @lengthOf(
-{
-// " ++ [27880; 37322]%N ++ runes_of_ascii "
-// `tick` ""quote"" 'q'
-string roots
-    `line1
-line2` ,}
-    // `tick` ""quote"" 'q'
-    packet a1  {  repeat x
-`" ++ [28040; 24687; 31867; 22411]%N ++ runes_of_ascii "`,}
-    MetaData pack {int rootA	`" ++ [233]%N ++ runes_of_ascii "`	,
-repeatCount
-    i8i8 , char[]
-    a1
-    , int16/// triple
-zchar // a // b
-, int32
-    falsey ,/// triple
-a1
-    matchKey `it's` , }
-MetaData  u128 { int8 A
-`" ++ [28040; 24687; 31867; 22411]%N ++ runes_of_ascii "`
-,
-} options{ rootA =	uint8	; u8x	=
-'0'
-    //
-    ;o
-= int32  ; MetaDataX = """ ++ [128512]%N ++ runes_of_ascii """ ; Pad = true }
-")).
-Eval vm_compute in ("<<<M3554>>>" ++ check (runes_of_ascii "packet	// packet A { u8 x, }
-
-  Pad { repeat
-    u8	f32a ,	string_
-
-{
-
-    char[ 42
-]  // a // b
-  As
-	,
-
-    repeat
-
-    uint16
-
-    asx ,
-
-    repeat zchar[  65535
-]
-	a1
-
-    ,} 
-,
-
+packet Order {
+    uint8 x,
+    repeat string venue,
 }
-
-    // trailing space 
-
-  // @lengthOf(
-    MetaData	rootA	{ }MetaData _x
-	{  char[]
-
-body  ,
-f64 // c
-  len
-	,rootA
-	uint8x`
-`
-    ,  float
-
-f32a
-
-    ,} 
-options 
-{ metadata =
-
-char
-; 
-//x
-
-msg_type=
-zchar[ 0
-
-]
-	;
-
-}
-	// " ++ [27880; 37322]%N ++ runes_of_ascii "
-")).
-Eval vm_compute in ("<<<M923>>>" ++ check (runes_of_ascii "packet As // " ++ [27880; 37322]%N ++ runes_of_ascii "
-{ zchar[// trailing space 
-3 ] BodyLength ,  @lengthOf( leftPad // a // b
-) @tag( 65535 )
-    roots // trailing space 
-MetaDataX , u32 T
-    `tab	here`,	}
-    packet
-string_{@lengthOf( options1
-) A
-T  `say ""hi""` ,match BodyLength
-    as  As {
-[ // c
-""abc"" , ""abc"" ]: Header ,
-""// no comment"" // trailing space 
-:  packetx  ,  }
-,  } packet
-msg_type { char[]
-Z9_ `" ++ [28040; 24687; 31867; 22411]%N ++ runes_of_ascii "`, repeat msg_type trueish , }")).
-Eval vm_compute in ("<<<M1341>>>" ++ check (runes_of_ascii "packet // packet A { u8 x, }
-len {repeat crc// c
-, zchar[
-//	t
-// packet A { u8 x, }
-7
-]	roots `" ++ [233]%N ++ runes_of_ascii "`
-,u{string_ x_y_z ,
-} ,	}	root packet len {falsey
-    `a\`,	@rightPad
-(' '
-)	@rightPad  ( )
-// packet A { u8 x, }
-// `tick` ""quote"" 'q'
-@tag( 007
-) repeat float	{ msg_type
-    `" ++ [28040; 24687; 31867; 22411]%N ++ runes_of_ascii "`,int8 i8i8 `say ""hi""`
-, match
-    u128 as crc {
-    007
-//	t
-// @lengthOf(
-:tag , } ,char[]  As `it's`
-, } ,
-    }
-")).
-Eval vm_compute in ("<<<M1325>>>" ++ check (runes_of_ascii "
-MetaData
-MetaDataX { zchar[//
-42 ] charz`` ,Packet
-    stringy	`two words` , u32 // a // b
-uint8x
-    // packet A { u8 x, }
-    ,int chars`
-` ,	f32 metadata ,
-    char[]
-    string_
-    ,} packet roots
-{ char[
-    7
-    ]
-    leftPad
-    ,	@tag( 1 )uint8x@calculatedFrom( ""`tick`"" ) ,@lengthOf(x )lengthOf { repeat
-    // " ++ [27880; 37322]%N ++ runes_of_ascii "
-    uint8x  u, char
-zchar , zchar[ 10
-] tag
-, }
-,}")).
-Eval vm_compute in ("<<<M347>>>" ++ check (runes_of_ascii "MetaData packetx {
-// `tick` ""quote"" 'q'
-// `tick` ""quote"" 'q'
-float64 _x , msg_type calculatedFrom // a // b
-`say ""hi""`  , metadata Foo `a\` ,falsey asx `two words` , char[	4294967296 ]calculatedFrom ,
-int32 options1 , }options {
-crc
-    =
-    '\x00' ;
-charz = ""it's"" ; BodyLength =
-    ""\" ++ [233]%N ++ runes_of_ascii """ body =//
-int8
-    ; }
-MetaData len{
-    char[ 42 ] Logon`tab	here`,	}")).
-Eval vm_compute in ("<<<M556>>>" ++ check (runes_of_ascii "packet len { i8
-    Pad @calculatedFrom( ""abc""
-)
-, } packet BodyLength{ repeat matchKey , @calculatedFrom(""1"" )
-    repeat uint32
-    // @lengthOf(
-    f32a
-`two words`, MetaDataX , zchar[0123456789
-    ] options1 @lengthOf( // c
-i8i8 ) `" ++ [233]%N ++ runes_of_ascii "` , @calculatedFrom(
-""" ++ [28040; 24687]%N ++ runes_of_ascii """ ) match u8x as _x	{
-//	t
-// packet A { u8 x, }
-""\" ++ [233]%N ++ runes_of_ascii """ :string_  ,
-10 :  Z9_, } , }
-")).
-Eval vm_compute in ("<<<M4475>>>" ++ check (runes_of_ascii "
-root	packet
-    As
-{match 
-pack	as body {  [3	,
-    ""\" ++ [233]%N ++ runes_of_ascii """
-
-,  255
-	, 007,00
-    // trailing space 
-	//	t
-,  007
-]
-
-: Pad , } 
-	    //x
-
-	,
-    @lengthOf( charz )
-@rightPad ('0'
-)
-
-    @calculatedFrom(
-    ""1""
-	)repeatCount 
-BodyLength  , @rightPad	( '\x00'	) zchar[	00  ] 
-string_ 
-`" ++ [28040; 24687; 31867; 22411]%N ++ runes_of_ascii "`
-,crc@lengthOf(
-
-    msg_type
-
-),//x
-} ")).
-Eval vm_compute in ("<<<M712>>>" ++ check (runes_of_ascii "
-packet Foo
-    { @lengthOf( metadata) // " ++ [128512]%N ++ runes_of_ascii " emoji
-repeat len {
-matchKey lengthOf
-,
-repeat body { int8 Header	, zchar @lengthOf( x) , }
-// " ++ [128512]%N ++ runes_of_ascii " emoji
-// @lengthOf(
-, }
-    //
-    ,
-    char[
-4294967296
-]
-    _x
-, } MetaData T{repeatCount
-    trueish,
-    char[65535  ]  Pad `" ++ [233]%N ++ runes_of_ascii "` , }
-options {
-}
-options {
-u8x
-=
-    ""1"" ;}
-")).
-Eval vm_compute in ("<<<M3911>>>" ++ check (runes_of_ascii "packet zchar {
-    stringy @lengthOf(MetaDataX) `it's`,
-    @tag(1)
-    match Z9_ as calculatedFrom {
-        """ ++ [28040; 24687]%N ++ runes_of_ascii """ : Header,
-        0123456789 : asx,
-        [255] : rootA,
-        ""\n"" : zchar,
-    },
-    repeat float64 rootA,
-    char[] repeatCount,
-    repeat int32 metadata `" ++ [233]%N ++ runes_of_ascii "`,
-    repeat char[7] u8x,
-}")).
-Eval vm_compute in ("<<<M3769>>>" ++ check (runes_of_ascii "packet T
-{ match
-Packet as 
-// c
-		// " ++ [27880; 37322]%N ++ runes_of_ascii "
-Header
-
-    {
-42 : 
-BodyLength
-,  ""// no comment"" 
-
-// `tick` ""quote"" 'q'
-	  // packet A { u8 x, }
-  	:
-    matchKey
-""`tick`""
-	:
-	crc
-
-,
-
-    [
-
-1
-	] :o
-,
-
-}
-,
-}// " ++ [128512]%N ++ runes_of_ascii " emoji
-    	packet
-    As {
-} options	{
-
-    u128
-
-= //x
-
-' ' body
-
-=	char[]	}
-
-")).
-Eval vm_compute in ("<<<M1422>>>" ++ check (runes_of_ascii "root packet char[] // " ++ [128512]%N ++ runes_of_ascii " emoji
-{ } options {
-    // a // b
-    tag // `tick` ""quote"" 'q'
-= //	t
-""""
-    ; u8x = zchar[0  ] }
-MetaData
-    int {zchar[ 10]
-lengthOf	`` , i64 u8x`// not a comment` ,MetaDataX pack// `tick` ""quote"" 'q'
-`crlf
-line`
-, Logon charz `crlf
-line`
-    ,
-    // a // b
-    }
-")).
-Eval vm_compute in ("<<<M1595>>>" ++ check (runes_of_ascii "root packet Foo // " ++ [128512]%N ++ runes_of_ascii " emoji
-{ } options {
-    // a // b
-    tag // `tick` ""quote"" 'q'
-= //	t
-""""
-    ; u8x = zchar[0  ] }
-MetaData
-    int {zchar[ 10]
-lengthOf	`` , i64 u8x`// not a comment` ,MetaDataX pack// `tick` ""quote"" 'q'
-`crlf
-line`
-, Logon charz `crlf
-line`
-    , ,
-    // a // b
-    }
-")).
-Eval vm_compute in ("<<<M1451>>>" ++ check (runes_of_ascii "root packet Foo // " ++ [128512]%N ++ runes_of_ascii " emoji
-{ } options {
-    // a // b
-    tag // `tick` ""quote"" 'q'
-"""" //	t
-=
-    ; u8x = zchar[0  ] }
-MetaData
-    int {zchar[ 10]
-lengthOf	`` , i64 u8x`// not a comment` ,MetaDataX pack// `tick` ""quote"" 'q'
-`crlf
-line`
-, Logon charz `crlf
-line`
-    ,
-    // a // b
-    }
-")).
-Eval vm_compute in ("<<<M43>>>" ++ check (runes_of_ascii "MetaData Foo
-    {
-    chars i8i8 ,  }MetaData
-// trailing space 
-// " ++ [27880; 37322]%N ++ runes_of_ascii "
-BodyLength{calculatedFrom a1 `it's`
-,
-} packet Z9_ //	t
-{ @calculatedFrom(
-    """ ++ [128512]%N ++ runes_of_ascii """ ) @lengthOf( metadata )
-    string a1
-    /// triple
-    `{ , }` ,
-    match
-u8x as o { 10
-:  Foo // @lengthOf(
-, ""abc"" : falsey},
-}
-")).
-Eval vm_compute in ("<<<M1444>>>" ++ check (runes_of_ascii "root packet Foo // " ++ [128512]%N ++ runes_of_ascii " emoji
-{ } options {
-    // a // b
-     // `tick` ""quote"" 'q'
-= //	t
-""""
-    ; u8x = zchar[0  ] }
-MetaData
-    int {zchar[ 10]
-lengthOf	`` , i64 u8x`// not a comment` ,MetaDataX pack// `tick` ""quote"" 'q'
-`crlf
-line`
-, Logon charz `crlf
-line`
-    ,
-    // a // b
-    }
-")).
-Eval vm_compute in ("<<<M389>>>" ++ check (runes_of_ascii "MetaData int
-{ //x
-u8x
-float , zchar[3 ] body	`" ++ [28040; 24687; 31867; 22411]%N ++ runes_of_ascii "`, Z9_ leftPad // c
-, f32a
-    msg_type , i64_ // " ++ [27880; 37322]%N ++ runes_of_ascii "
-chars, u8x	o,
-    // packet A { u8 x, }
-    } options{ Z9_
-    // packet A { u8 x, }
-    = false ;
-MetaDataX = // packet A { u8 x, }
-'\x00' ; f32a=
-    """ ++ [28040; 24687]%N ++ runes_of_ascii """
-; x_y_z = ' ';}
-
-")).
-Eval vm_compute in ("<<<M1247>>>" ++ check (runes_of_ascii "packet As{ @calculatedFrom(
-""1"" // c
-)x_y_z f32a ,//	t
-repeat Packet, @leftPad
-( ' ' )float64
-msg_type @calculatedFrom(  ""it's"") `
-`
-,@lengthOf(/// triple
-i64_ ) // " ++ [128512]%N ++ runes_of_ascii " emoji
-trueish @lengthOf( charz )
-    ,
-    // trailing space 
-    @rightPad ( '0' //x
-)
-Z9_ `" ++ [233]%N ++ runes_of_ascii "`
-,
-} // c")).
-Eval vm_compute in ("<<<M949>>>" ++ check (runes_of_ascii "options
-    { } packet repeatCount { Foo // " ++ [128512]%N ++ runes_of_ascii " emoji
-T ,_x `// not a comment` , @calculatedFrom(//	t
-""x y""  ) repeat
-    float32 uint8x `doc` ,char
-msg_type
-@lengthOf( // " ++ [27880; 37322]%N ++ runes_of_ascii "
-stringy ) , @lengthOf( int) repeat float `two words`, }MetaData u8x
-// " ++ [27880; 37322]%N ++ runes_of_ascii "
-// a // b
-{	}")).
-Eval vm_compute in ("<<<M664>>>" ++ check (runes_of_ascii "MetaData i64_ {
-char[
-255 ]tag
-    //
-    , uint32 Z9_ , T options1 `a\` ,
-    options1 Pad  , f32
-leftPad `line1
-line2` ,
-}
-options {	}
-    root
-    packet uint8x { // `tick` ""quote"" 'q'
-@lengthOf(float) falsey int `
-`, } MetaData A { u8 Packet ,}")).
-Eval vm_compute in ("<<<M800>>>" ++ check (runes_of_ascii "root
-    //	t
-    packet Logon //
-{ @tag(0123456789 )	@leftPad (' '
-) Packet{
-o @calculatedFrom(""a	b""
-    )  `tab	here`
-    , },
-    repeat leftPad i8i8`line1
-line2` , i64 calculatedFrom , float32 stringy @calculatedFrom(
-""`tick`"" )	, }
-
-")).
-Eval vm_compute in ("<<<M1044>>>" ++ check (runes_of_ascii "
-options{ len //
-= false // " ++ [128512]%N ++ runes_of_ascii " emoji
-}	options
-    { leftPad =
-""`tick`"" ;repeatCount
-= char[// " ++ [128512]%N ++ runes_of_ascii " emoji
-4294967296
-// c
-// trailing space 
-]chars = ""`tick`""}packet trueish{ u16  crc,
-@tag( 0123456789 ) string trueish `crlf
-line` , }")).
-Eval vm_compute in ("<<<M2389>>>" ++ check (runes_of_ascii "MetaData Packet { @lengthOf}packet	asx  { @lengthOf( asx) falsey`crlf
-line`
-,
-    }
-    packet x	{uint32// @lengthOf(
-rootA	,u32 options1 `say ""hi""` , @tag( 7
-    )// packet A { u8 x, }
-msg_type @lengthOf(
-stringy	)	, }
-
-")).
-Eval vm_compute in ("<<<M3620>>>" ++ check (runes_of_ascii "// top
-packet B {
-    // c2
-    u8 a,
-}// c6a
-
-// c6b
-root packet P {
-    // c10
-    u8 K,// c13
-    u8 L @lengthOf(Body),// c19
-    match K as Body {
-        // c24a
-        // c24b
-        1 : B,
-    },// c30
-}// c31a")).
-Eval vm_compute in ("<<<M2336>>>" ++ check (runes_of_ascii "MetaData Packet { }packet	asx  { @lengthOf( asx) falsey`crlf
-line`
-,
-    }
-    packet x	{uint32// @lengthOf(
-rootA	,u32 options1 `say ""hi""` , @tag( 7 7
-    )// packet A { u8 x, }
-msg_type @lengthOf(
-stringy	)	, }
-
-")).
-Eval vm_compute in ("<<<M2237>>>" ++ check (runes_of_ascii "MetaData Packet { }packet	{  asx @lengthOf( asx) falsey`crlf
-line`
-,
-    }
-    packet x	{uint32// @lengthOf(
-rootA	,u32 options1 `say ""hi""` , @tag( 7
-    )// packet A { u8 x, }
-msg_type @lengthOf(
-stringy	)	, }
-
-")).
-Eval vm_compute in ("<<<M2233>>>" ++ check (runes_of_ascii "MetaData Packet { }@tag(	asx  { @lengthOf( asx) falsey`crlf
-line`
-,
-    }
-    packet x	{uint32// @lengthOf(
-rootA	,u32 options1 `say ""hi""` , @tag( 7
-    )// packet A { u8 x, }
-msg_type @lengthOf(
-stringy	)	, }
-
-")).
-Eval vm_compute in ("<<<M2358>>>" ++ check (runes_of_ascii "MetaData Packet { }packet	asx  { @lengthOf( asx) falsey`crlf
-line`
-,
-    }
-    packet x	{uint32// @lengthOf(
-rootA	,u32 options1 `say ""hi""` , @tag( 7
-    )// packet A { u8 x, }
-msg_type @lengthOf(
-u64	)	, }
-
-")).
-Eval vm_compute in ("<<<M2315>>>" ++ check (runes_of_ascii "MetaData Packet { }packet	asx  { @lengthOf( asx) falsey`crlf
-line`
-,
-    }
-    packet x	{uint32// @lengthOf(
-rootA	,u32  `say ""hi""` , @tag( 7
-    )// packet A { u8 x, }
-msg_type @lengthOf(
-stringy	)	, }
-
-")).
-Eval vm_compute in ("<<<M3481>>>" ++ check (runes_of_ascii "packet orderItem
-    // c1
-{ // c2
-u8 // c3a
-  // c3b
-a
-    // c4
-,
-    // c5
-} root packet // c8
-newOrder // c9a
-  // c9b
-{
-    // c10
-orderItem // c11a
-  // c11b
-, // c12
-u8
-    // c13
-x // c14
-, } ")).
-Eval vm_compute in ("<<<M3751>>>" ++ check (runes_of_ascii "root packet int {
-    trueish @calculatedFrom(""it's"") `doc`,
-    string T `crlf
-        line`,
-    repeat rootA {
-        match chars as tag {
-            [""" ++ [233]%N ++ runes_of_ascii "t" ++ [233]%N ++ runes_of_ascii """] : uint8x,
+packet Heartbeat {
+    i64 count,
+    zchar[1] Qty,
+    repeat InX29 {
+        InSeqno26 {
+            int64 f1,
+            char[5] Acct,
+            Order,
         },
+        repeat InSide285 {
+            repeat Order,
+            char[10] Px,
+            zchar[9] OrderId,
+        },
+        char[] venue,
+        Order,
     },
-}")).
-Eval vm_compute in ("<<<M3486>>>" ++ check (runes_of_ascii "options {
-    FixedStringPadChar = '0';
+    @rightPad('\x00') char[4] clOrdID,
 }
-packet Q {
-    zchar[4] z,
-    @rightPad('\x00') char[3] n,
-    char[5] d,
-}
-root packet R {
-    Q,
-    zchar[8] top,
-    repeat zchar[2] zs,
+root packet Party {
+    zchar[3] f1,
+    u32 clOrdID,
+    u32 Px @lengthOf(Body),
+    match clOrdID as Body {
+        [180, 64] : Heartbeat,
+        11 : Order,
+    },
+    u32 Side2 @calculatedFrom(""CR\
+C32""),
 }
 ")).
-Eval vm_compute in ("<<<M638>>>" ++ check (runes_of_ascii "options /// triple
-{ T= //
-""" ++ [128512]%N ++ runes_of_ascii """ ;
-    o= '\x00'As =
-    '\x00' //	t
-tag	= // a // b
-""1""
+Eval vm_compute in ("<<<M656>>>" ++ check (runes_of_ascii "packet
+//x
+/// triple
+u8x { MetaDataX
+@lengthOf( charz
+    ) `u8 x,` , @tag(
+    0
+)
+zchar[ 7 ]
+    u , i8  len `two words` // c
+,
 }
-    root packet MetaDataX	{ @rightPad ('0' ) _x
-`// not a comment`	, /// triple
-}")).
-Eval vm_compute in ("<<<M483>>>" ++ check (runes_of_ascii "options  { // packet A { u8 x, }
-options1
-    = ""\" ++ [233]%N ++ runes_of_ascii """ ;
-    A=
-    false /// triple
-;
-    matchKey =""\" ++ [233]%N ++ runes_of_ascii """	packetx= ' ' ;
+MetaData roots {i64 body , // a // b
+u  matchKey
+    , Packet a1 ,  zchar[ 65535  ] Logon/// triple
+`a\` , uint8 A  `line1
+line2`
+,	} root	packet
+body {
+// " ++ [128512]%N ++ runes_of_ascii " emoji
+// c
+repeatCount , u64
+    x_y_z ,
+o
+A `a\` ,
+float32 msg_type
+    ,	} MetaData // trailing space 
+_x
+{ char[ 3 ] As `crlf
+line`,} root packet u8x	{
+    @tag(
+7 ) char[
+    // " ++ [27880; 37322]%N ++ runes_of_ascii "
+    7 //	t
+]
+i8i8
+    @calculatedFrom(""" ++ [233]%N ++ runes_of_ascii "t" ++ [233]%N ++ runes_of_ascii """
+)
+,f64 // " ++ [128512]%N ++ runes_of_ascii " emoji
+u8x  @lengthOf( float) ,	@tag(255 ) Header Packet `// not a comment` , @leftPad
+    ( ' ' ) @rightPad( ' ')
+f32
+trueish @lengthOf( x_y_z  ) ,
+    }
 //
-// packet A { u8 x, }
-options1 =
-    ' ' ; }
 ")).
-Eval vm_compute in ("<<<M1543>>>" ++ check (runes_of_ascii "root packet Foo // " ++ [128512]%N ++ runes_of_ascii " emoji
+Eval vm_compute in ("<<<M21>>>" ++ check (runes_of_ascii "packet	Z9_ {repeat options1 {
+    repeat i16 o
+// a // b
+/// triple
+`two words`
+, match charz
+as o { [ 4294967296 ,
+""// no comment""	]:
+// `tick` ""quote"" 'q'
+// packet A { u8 x, }
+u
+    , } , match float
+    as
+    tag
+{ [
+00] : leftPad ,	[
+""" ++ [233]%N ++ runes_of_ascii "t" ++ [233]%N ++ runes_of_ascii """ ,
+""\n""
+, 0 //
+, ""CRC32"" ,
+    1
+    , """ ++ [28040; 24687]%N ++ runes_of_ascii """ , 255
+    , 1]
+: options1, 255	: x  , 00 : x ,
+    } , repeat
+string asx `u8 x,` , } ,
+// " ++ [27880; 37322]%N ++ runes_of_ascii "
+// a // b
+zchar[ 3	] falsey ,}
+    packet u
+{
+//x
+// trailing space 
+zchar[ 0 ]asx ,
+    @tag(
+    10
+)
+    @rightPad (' ' ) @rightPad
+    //x
+    ( '\x00') Logon
+    @calculatedFrom( """ ++ [128512]%N ++ runes_of_ascii """ ) , repeat char[255 ] calculatedFrom	, uint16 lengthOf,
+    }root /// triple
+packet  pack { }
+")).
+Eval vm_compute in ("<<<M4177>>>" ++ check (runes_of_ascii "
+packet
+
+    matchKey  {
+char
+	u128
+    @calculatedFrom(""CRC32""
+
+//x
+    )
+
+`{ , }`
+	, }
+MetaData
+leftPad 
+        //
+  // c
+		{
+uint8x
+
+lengthOf 
+    // packet A { u8 x, }
+// @lengthOf(
+,
+
+    o
+
+    f32a
+    // a // b
+	/// triple
+,zchar[ 7	]
+    Z9_, 
+}
+packet
+    body	{
+@tag( 
+255) repeatCount
+
+    @lengthOf( BodyLength
+
+),
+
+@tag(
+    7
+	) repeat zchar[ 
+4294967296
+	] i64_
+,match x_y_z as
+
+Header
+{""`tick`""
+    :
+	rootA
+
+,
+}
+,
+    @calculatedFrom(
+
+    ""packet""
+	) rootA
+
+    {
+uint64 
+string_,	char[// " ++ [27880; 37322]%N ++ runes_of_ascii "
+    	65535
+	]
+
+    BodyLength
+@calculatedFrom( 
+""a\""b""
+    ) `tab	here`	,
+
+int64 pack `line1
+line2`,}
+,
+	}
+")).
+Eval vm_compute in ("<<<M1142>>>" ++ check (runes_of_ascii "options{ } options  { calculatedFrom = true int = ""it's""tag  = false
+;
+i64_= 3; chars
+= ' ' } options //	t
+{ o = ' '; repeatCount // a // b
+= 00} root
+// " ++ [128512]%N ++ runes_of_ascii " emoji
+// " ++ [128512]%N ++ runes_of_ascii " emoji
+packet
+uint8x
+{
+// @lengthOf(
+// `tick` ""quote"" 'q'
+@rightPad ( '\x00'
+    )i64
+    pack @calculatedFrom(
+    ""\" ++ [233]%N ++ runes_of_ascii """)
+    , repeat char[ 255] body , @tag(10
+)@lengthOf( x_y_z	)int8 a1 `doc` ,i64_ @calculatedFrom(
+""// no comment"")
+// " ++ [27880; 37322]%N ++ runes_of_ascii "
+// " ++ [128512]%N ++ runes_of_ascii " emoji
+`" ++ [233]%N ++ runes_of_ascii "` ,match asx as i64_ {
+""a\""b"" :  f32a , [ ""a\\""] : Logon  , [ 4294967296 ]:
+    pack ,10 : x_y_z
+// `tick` ""quote"" 'q'
+// trailing space 
+,3
+: charz } , @leftPad ( )  asx chars	`tab	here` , }
+")).
+Eval vm_compute in ("<<<M651>>>" ++ check (runes_of_ascii "packet
+u { repeat
+zchar[ 0123456789 // trailing space 
+] x `tab	here`
+/// triple
+//	t
+, @lengthOf( u8x  ) @tag( //x
+3 )@tag(  255 ) options1
+f32a `tab	here`
+    , string BodyLength `u8 x,` ,
+@calculatedFrom( """ ++ [28040; 24687]%N ++ runes_of_ascii """
+    ) string
+u8x  `" ++ [28040; 24687; 31867; 22411]%N ++ runes_of_ascii "`
+, char[ 3 // `tick` ""quote"" 'q'
+] BodyLength , // " ++ [128512]%N ++ runes_of_ascii " emoji
+match rootA
+as
+msg_type { 007 :
+    MetaDataX
+    // " ++ [27880; 37322]%N ++ runes_of_ascii "
+    [ 1	,255, ""CRC32"" , 4294967296] // trailing space 
+: tag ,  }
+// @lengthOf(
+// " ++ [128512]%N ++ runes_of_ascii " emoji
+, float64 a1 `doc`
+, @calculatedFrom( ""a	b"" ) char[3
+    ] body
+, _x	, }
+root
+    packet len {
+    repeat o rootA
+    ,
+}")).
+Eval vm_compute in ("<<<M690>>>" ++ check (runes_of_ascii "packet Z9_	{a1,
+}root packet crc
+    {
+/// triple
+// trailing space 
+u32 o@calculatedFrom( ""it's""
+)
+,
+    float32
+lengthOf  , zchar[4294967296
+    //	t
+    ] repeatCount @lengthOf( MetaDataX ) `{ , }` ,//
+@rightPad ( '0'
+// packet A { u8 x, }
+// c
+) body {
+string Packet
+`tab	here` ,}
+    ,	repeat i8i8 {match
+BodyLength as Foo{ 7 : f32a , 42
+    : A ""packet"" : uint8x , [ ""a\\"" ]
+    // a // b
+    :  u8x	, ""it's"" : As
+, } , repeat zchar[ 65535 ] crc , char[]
+chars `a\`
+    ,}//	t
+,  char[ 4294967296 ]	repeatCount `two words`,
+    }")).
+Eval vm_compute in ("<<<M36>>>" ++ check (runes_of_ascii "root packet
+leftPad { match roots as packetx{
+42 : chars, 255 : f32a , }
+    , @rightPad
+(	' ' ) // @lengthOf(
+charz
+    @lengthOf( packetx ) , i32 u8x  , uint8x
+, } root packet x_y_z { u64 packetx
+@lengthOf( stringy )
+    ,
+    @leftPad// " ++ [27880; 37322]%N ++ runes_of_ascii "
+( ' '
+    ) // packet A { u8 x, }
+@rightPad ( '\x00'
+    ) // trailing space 
+@calculatedFrom(	""\" ++ [233]%N ++ runes_of_ascii """ ) uint8
+MetaDataX@lengthOf(
+    As
+    ) ,@lengthOf(
+rootA ) // c
+float64 uint8x`say ""hi""` ,@leftPad ( ' ' ) repeat float64 Pad ,
+    // packet A { u8 x, }
+    }
+")).
+Eval vm_compute in ("<<<M84>>>" ++ check (runes_of_ascii "MetaData
+    /// triple
+    Logon
+{zchar[
+    3 ] a1
+    `" ++ [28040; 24687; 31867; 22411]%N ++ runes_of_ascii "`
+    , char[ 007 ]
+MetaDataX `a\` ,
+}  root packet
+    pack { }
+packet
+    // trailing space 
+    i64_
+{  @lengthOf(chars
+)
+    len	{ uint8 rootA`doc` ,
+string_ `crlf
+line` //x
+, //	t
+match charz as
+Foo
+{
+    42 : options1 , [255
+    ]:charz
+    } , }, roots repeatCount
+    `two words` /// triple
+,
+    //	t
+    string Logon @calculatedFrom( ""a\""b"") , @calculatedFrom(// `tick` ""quote"" 'q'
+""a\\""	) Z9_
+    ,
+} //x")).
+Eval vm_compute in ("<<<M188>>>" ++ check (runes_of_ascii "packet asx{
+@lengthOf(	falsey
+    //	t
+    ) repeat uint64 charz , repeat // " ++ [128512]%N ++ runes_of_ascii " emoji
+char[] As `it's`
+, }packet
+u8x { @tag(
+    4294967296
+    )
+@calculatedFrom(
+""`tick`""
+) @calculatedFrom(""abc"" ) repeat // @lengthOf(
+i64 options1 `it's`, match Logon as o {  3 :Z9_ 3:T , 3// c
+:// @lengthOf(
+u128,4294967296: Z9_ , [""""
+,
+10
+    ] : body ,
+    // c
+    """ ++ [233]%N ++ runes_of_ascii "t" ++ [233]%N ++ runes_of_ascii """ : string_
+//
+/// triple
+, } , @tag( 7 )
+uint8x
+    @lengthOf(
+    //
+    Foo ), repeat T _x//
+`" ++ [233]%N ++ runes_of_ascii "`
+, }")).
+Eval vm_compute in ("<<<M337>>>" ++ check (runes_of_ascii "packet
+    // " ++ [128512]%N ++ runes_of_ascii " emoji
+    Header {	@calculatedFrom( """" ) @calculatedFrom(
+""" ++ [128512]%N ++ runes_of_ascii """ )  @calculatedFrom(
+""it's"" ) tag
+// trailing space 
+//
+{int32 repeatCount
+,f32a //
+@lengthOf(
+    BodyLength ) , calculatedFrom{ i64_
+    len, trueish @lengthOf( body ) `
+` , i64 f32a `u8 x,`, //x
+match  Foo as A { 007
+: options1
+//x
+/// triple
+,  255: charz ,""" ++ [233]%N ++ runes_of_ascii "t" ++ [233]%N ++ runes_of_ascii """ :zchar
+, ""`tick`""	:
+    u8x
+    ,  1 : len },}, } ,
+    repeat leftPad { uint32 packetx	`` , } // c
+, }")).
+Eval vm_compute in ("<<<M163>>>" ++ check (runes_of_ascii "
+packet
+    float {
+    char[ 00 ] u8x ,	}
+packet // " ++ [128512]%N ++ runes_of_ascii " emoji
+A // @lengthOf(
+{ string
+i8i8 , A //x
+@calculatedFrom(
+""a	b"" ) `a\`, @tag( 1 )
+    chars	@lengthOf( Pad ) `u8 x,`
+    , /// triple
+match repeatCount as stringy { 42 :
+x
+3: // @lengthOf(
+tag, [ 00 , 0123456789
+] : packetx , [ """ ++ [28040; 24687]%N ++ runes_of_ascii """	, ""packet""
+]: string_ , }	,
+}options // @lengthOf(
+{ i8i8= """ ++ [233]%N ++ runes_of_ascii "t" ++ [233]%N ++ runes_of_ascii """ Foo
+    = false
+    // packet A { u8 x, }
+    ;  Pad =
+' '
+    ;}")).
+Eval vm_compute in ("<<<M4062>>>" ++ check (runes_of_ascii "packet x_y_z {
+    @tag(7)
+    u128 u8x,
+    char[1] x_y_z `{ , }`,
+    @lengthOf(T)
+    @calculatedFrom(""" ++ [28040; 24687]%N ++ runes_of_ascii """)
+    @lengthOf(BodyLength)
+    //x
+    // packet A { u8 x, }
+    match body as u {
+        0123456789 : rootA,
+    },
+}
+
+root packet Logon {
+}
+
+MetaData lengthOf {
+    repeatCount As,
+    u16 MetaDataX `crlf
+    line`,
+    //	t
+    // " ++ [27880; 37322]%N ++ runes_of_ascii "
+    Packet BodyLength,
+    falsey _x `u8 x,`,
+    zchar[3] Z9_,
+}")).
+Eval vm_compute in ("<<<M934>>>" ++ check (runes_of_ascii "// trailing space 
+packet asx
+{ // @lengthOf(
+} root packet Logon{ char // " ++ [128512]%N ++ runes_of_ascii " emoji
+stringy
+    @calculatedFrom( //	t
+""abc""
+)`say ""hi""` ,
+//	t
+//x
+f64	tag ,// " ++ [27880; 37322]%N ++ runes_of_ascii "
+char[ 0123456789
+    ]
+    packetx , match x	as pack// c
+{ ""\n"" :BodyLength ,
+    // packet A { u8 x, }
+    007 :
+    body/// triple
+, [ 255 ,
+255
+,255  ] //	t
+: A
+    , 0 : o	,[
+    ""abc"" , 1] :crc , [
+""a	b"" ]
+    :charz , } , }
+")).
+Eval vm_compute in ("<<<M3288>>>" ++ check (runes_of_ascii "// top
+packet
+    // c0
+u128 // c1
+{ // c2
+@lengthOf(
+    // c3
+body // c4a
+  // c4b
+) // c5
+match // c6
+x_y_z // c7
+as
+    // c8
+u // c9
+{ // c10a
+  // c10b
+""x y"" : // c12a
+  // c12b
+i8i8 , // c14a
+  // c14b
+} // c15a
+  // c15b
+,
+    // c16
+@tag(
+    // c17
+255 // c18
+)
+    // c19
+char[] // c20
+roots // c21a
+  // c21b
+@lengthOf( int
+    // c23
+)
+    // c24
+, // c25
+} // c26
+")).
+Eval vm_compute in ("<<<M4382>>>" ++ check (runes_of_ascii "packet 
+calculatedFrom{ int16
+
+    asx @calculatedFrom(
+"""" ) ,
+	@calculatedFrom(""1"")	i8i8
+{ i32 stringy @calculatedFrom(
+
+""a	b""
+)	`say ""hi""`  ,i32//x
+
+  uint8x 
+,
+match
+
+    Header
+
+as
+Logon {
+00	: A , } ,
+	match 
+  // `tick` ""quote"" 'q'
+      repeatCount  as  Packet
+
+{
+
+    ""packet"" : 
+	// trailing space 
+    MetaDataX
+""" ++ [28040; 24687]%N ++ runes_of_ascii """
+
+    : u
+    ,
+} ,} ,}
+")).
+Eval vm_compute in ("<<<M1253>>>" ++ check (runes_of_ascii "// @lengthOf(
+options { u128  = uint32
+}  packet	T {// packet A { u8 x, }
+}
+options {} MetaData // " ++ [27880; 37322]%N ++ runes_of_ascii "
+pack// " ++ [128512]%N ++ runes_of_ascii " emoji
+{
+    }packet _x
+{	@tag( 1) char[ 00
+    ] x_y_z
+    @calculatedFrom( ""\" ++ [233]%N ++ runes_of_ascii """ ) ,
+    f32 a1 , @rightPad
+(  '0'	) zchar[ 00
+]  u
+    `u8 x,` ,@lengthOf(msg_type )x  {metadata , } ,
+    // packet A { u8 x, }
+    char[]
+    float , }")).
+Eval vm_compute in ("<<<M3741>>>" ++ check (runes_of_ascii "options {
+    calculatedFrom = '0';
+}
+
+root packet metadata {
+    i64 float @calculatedFrom(""1""),
+    @rightPad()
+    Logon u `crlf
+        line`,// trailing space 
+    falsey Packet `line1
+        line2`,
+    u32 a1 `tab	here`,
+}// " ++ [128512]%N ++ runes_of_ascii " emoji
+
+options {
+    lengthOf = '\x00'
+    msg_type = uint8;
+    repeatCount = 0123456789;
+}//x")).
+Eval vm_compute in ("<<<M4073>>>" ++ check (runes_of_ascii "root packet f32a {
+    @leftPad('0')
+    @tag(00)
+    @rightPad('0')
+    falsey tag,/// triple
+    float32 packetx `tab	here`,
+    Pad,
+    @tag(255)
+    char[] T `" ++ [28040; 24687; 31867; 22411]%N ++ runes_of_ascii "`,
+    repeat char[4294967296] Logon,
+    repeat zchar[007] x `
+        `,
+    uint64 uint8x `two words`,
+    Z9_ @lengthOf(f32a),
+}// packet A { u8 x, }")).
+Eval vm_compute in ("<<<M4157>>>" ++ check (runes_of_ascii "
+packet	leftPad { trueish
+    {
+
+    char[]
+
+    charz@calculatedFrom(  ""\n""  ) 
+  // @lengthOf(
+//x
+
+  ,
+    }  ,  @rightPad
+
+    ( '0')
+    @tag( 
+255 
+)
+    len{ zchar[
+
+    65535]
+
+    f32a
+,
+	}
+,
+    f64
+    i8i8 ``	,}
+
+options {
+	chars =
+00
+Pad  =  false // a // b
+	stringy
+= 
+string
+	} ")).
+Eval vm_compute in ("<<<M1580>>>" ++ check (runes_of_ascii "root packet Foo // " ++ [128512]%N ++ runes_of_ascii " emoji
 { } options {
     // a // b
     tag // `tick` ""quote"" 'q'
@@ -2041,200 +1547,440 @@ Eval vm_compute in ("<<<M1543>>>" ++ check (runes_of_ascii "root packet Foo // "
     ; u8x = zchar[0  ] }
 MetaData
     int {zchar[ 10]
-lengthOf	`` ,")).
-Eval vm_compute in ("<<<M185>>>" ++ check (runes_of_ascii "options {  Logon =
-    ""{,}"" } //	t
-MetaData leftPad { i8 zchar `// not a comment`, } MetaData len
-    {char[] u128	,} // " ++ [27880; 37322]%N ++ runes_of_ascii "
-root
-    packet Pad
-{
-    }")).
-Eval vm_compute in ("<<<M3438>>>" ++ check (runes_of_ascii "packet
-    B
-{u8 a
-    ,  }	root packet
-
-    P{ u8
-
-    K
-
+lengthOf	`` , i64 u8x`// not a comment` ,MetaDataX pack// `tick` ""quote"" 'q'
+`crlf
+line`
+, Logon Logon charz `crlf
+line`
     ,
-	u64
-
-    L@lengthOf(	Body
-)  ,  match 
-K
-	as
-    Body {	1 
-:
-B 
-, 
-},}
+    // a // b
+    }
 ")).
-Eval vm_compute in ("<<<M2334>>>" ++ check (runes_of_ascii "MetaData Packet { }packet	asx  { @lengthOf( asx) falsey`crlf
+Eval vm_compute in ("<<<M1621>>>" ++ check (runes_of_ascii "root packet Foo // " ++ [128512]%N ++ runes_of_ascii " emoji
+{ } options {
+    // a // b
+    tag // `tick` ""quote"" 'q'
+= //	t
+""""
+    ; u8x = zchar[0  ] }
+MetaData
+    int {zchar[ 10]
+lengthOf	`` , i64 u8x`// not a comment` ,MetaDataX pack// `tick` ""quote"" 'q'
+`crlf
+line`
+, Logon charz `crlf
+line`
+    ,
+    //'1' a // b
+    }
+")).
+Eval vm_compute in ("<<<M1481>>>" ++ check (runes_of_ascii "root packet Foo // " ++ [128512]%N ++ runes_of_ascii " emoji
+{ } options {
+    // a // b
+    tag // `tick` ""quote"" 'q'
+= //	t
+""""
+    ; u8x = zchar[ ]  0 }
+MetaData
+    int {zchar[ 10]
+lengthOf	`` , i64 u8x`// not a comment` ,MetaDataX pack// `tick` ""quote"" 'q'
+`crlf
+line`
+, Logon charz `crlf
+line`
+    ,
+    // a // b
+    }
+")).
+Eval vm_compute in ("<<<M1506>>>" ++ check (runes_of_ascii "root packet Foo // " ++ [128512]%N ++ runes_of_ascii " emoji
+{ } options {
+    // a // b
+    tag // `tick` ""quote"" 'q'
+= //	t
+""""
+    ; u8x = zchar[0  ] }
+MetaData
+    int zchar[{ 10]
+lengthOf	`` , i64 u8x`// not a comment` ,MetaDataX pack// `tick` ""quote"" 'q'
+`crlf
+line`
+, Logon charz `crlf
+line`
+    ,
+    // a // b
+    }
+")).
+Eval vm_compute in ("<<<M1489>>>" ++ check (runes_of_ascii "root packet Foo // " ++ [128512]%N ++ runes_of_ascii " emoji
+{ } options {
+    // a // b
+    tag // `tick` ""quote"" 'q'
+= //	t
+""""
+    ; u8x = zchar[0  ] 
+MetaData
+    int {zchar[ 10]
+lengthOf	`` , i64 u8x`// not a comment` ,MetaDataX pack// `tick` ""quote"" 'q'
+`crlf
+line`
+, Logon charz `crlf
+line`
+    ,
+    // a // b
+    }
+")).
+Eval vm_compute in ("<<<M192>>>" ++ check (runes_of_ascii "root
+packet	i64_
+    {
+    }options{ chars
+= char[
+65535 ] body = ""abc""; u= ""`tick`"" trueish
+='0' }options
+{repeatCount= '\x00'
+// " ++ [128512]%N ++ runes_of_ascii " emoji
+/// triple
+;
+    f32a =""\n"" int
+    /// triple
+    = false Pad
+= ""1""repeatCount =""// no comment""; }root packet string_
+{i32 As `tab	here` , } // c")).
+Eval vm_compute in ("<<<M887>>>" ++ check (runes_of_ascii "
+MetaData
+// " ++ [128512]%N ++ runes_of_ascii " emoji
+//
+i8i8
+{ int8 charz	`doc` ,}
+    packet Header
+    {  repeat
+    int32 lengthOf `line1
+line2` // trailing space 
+,
+}
+    options {float= char[] ;
+}packet i8i8 //
+{uint8	u128 @lengthOf(
+//	t
+//x
+repeatCount )`crlf
+line` ,} options {
+    Packet =
+char[ 007 ]}
+")).
+Eval vm_compute in ("<<<M3820>>>" ++ check (runes_of_ascii "root packet u {
+    @rightPad('\x00')
+    Logon @calculatedFrom(""{,}"") `" ++ [233]%N ++ runes_of_ascii "`,
+    @tag(3)
+    string repeatCount,
+    match packetx as u8x {
+        65535 : i8i8,
+        007 : roots,
+        ""a	b"" : BodyLength,
+    },
+    @tag(00)
+    uint32 repeatCount @lengthOf(u128),
+}")).
+Eval vm_compute in ("<<<M4491>>>" ++ check (runes_of_ascii "options { 
+}
+	options { } root packet 
+uint8x
+	{ @leftPad  ('\x00'  ) 
+match
+uint8x 
+as pack  {
+    [""\n""
+, 
+""a	b"",
+    10
+	,
+
+    // " ++ [27880; 37322]%N ++ runes_of_ascii "
+	255
+, 
+    // " ++ [27880; 37322]%N ++ runes_of_ascii "
+    	//	t
+	""a	b""
+,	//x
+  """" ]  // " ++ [27880; 37322]%N ++ runes_of_ascii "
+    :
+    repeatCount
+,  // c
+      }
+
+    , 	 // " ++ [128512]%N ++ runes_of_ascii " emoji
+
+}")).
+Eval vm_compute in ("<<<M3653>>>" ++ check (runes_of_ascii "// packet A { u8 x, }
+	  options
+
+    { 
+matchKey
+    = char[]x	=
+char[] 	 // " ++ [27880; 37322]%N ++ runes_of_ascii "
+
+	}
+
+packet
+i64_ {
+repeat  pack `say ""hi""` 
+,i16 calculatedFrom `u8 x,`, }MetaData
+	calculatedFrom	{  // trailing space 
+
+	Logon
+
+Packet ,}// `tick` ""quote"" 'q'
+")).
+Eval vm_compute in ("<<<M1151>>>" ++ check (runes_of_ascii "packet a1{
+@calculatedFrom(""// no comment"")
+repeat
+f32a { body// `tick` ""quote"" 'q'
+`// not a comment`,  } , o @calculatedFrom(""a	b""
+)
+    //	t
+    `line1
+line2`
+, @calculatedFrom(""`tick`""
+) repeat	tag	,
+// @lengthOf(
+// " ++ [128512]%N ++ runes_of_ascii " emoji
+}
+// c
+")).
+Eval vm_compute in ("<<<M181>>>" ++ check (runes_of_ascii "root
+packet BodyLength {
+//x
+//	t
+@rightPad( ' ') f32
+_x @lengthOf( Header )
+`" ++ [28040; 24687; 31867; 22411]%N ++ runes_of_ascii "`
+, @lengthOf( crc )
+    // a // b
+    @tag(
+    007
+) char[]// c
+a1
+    ,  } packet metadata { Foo@calculatedFrom( ""\n""), char _x
+// " ++ [27880; 37322]%N ++ runes_of_ascii "
+//	t
+, }
+")).
+Eval vm_compute in ("<<<M2372>>>" ++ check (runes_of_ascii "MetaData Packet { }packet	asx  { @lengthOf( asx) falsey`crlf
 line`
 ,
     }
     packet x	{uint32// @lengthOf(
-rootA	,u32 options1 `say ""hi""` ,")).
-Eval vm_compute in ("<<<M1680>>>" ++ check (runes_of_ascii "root packet /// triple
-rootA {	i32
-MetaDataX@calculatedFrom( ""CRC32"" ) `line1
-line2` , @lengthOf( MetaData BodyLength {
-u8
-rootA, } // c")).
-Eval vm_compute in ("<<<M1703>>>" ++ check (runes_of_ascii "root packet /// triple
-rootA {	i32
-MetaDataX@calculatedFrom( ""CRC32"" ) `line1
-line2` , } MetaData BodyLength {
-u8
-rootA rootA, } // c")).
-Eval vm_compute in ("<<<M1723>>>" ++ check (runes_of_ascii "root '1'packet /// triple
-rootA {	i32
-MetaDataX@calculatedFrom( ""CRC32"" ) `line1
-line2` , } MetaData BodyLength {
-u8
-rootA, } // c")).
-Eval vm_compute in ("<<<M1732>>>" ++ check (runes_of_ascii "root packet /// triple
-rootA {	i32
-MetaDataX@calculatedFrom( ""CRC32"" ) `line1
-line2` , } MetaD%ata BodyLength {
-u8
-rootA, } // c")).
-Eval vm_compute in ("<<<M1662>>>" ++ check (runes_of_ascii "root packet /// triple
-rootA {	i32
-MetaDataX@calculatedFrom( ""CRC32""  `line1
-line2` , } MetaData BodyLength {
-u8
-rootA, } // c")).
-Eval vm_compute in ("<<<M1705>>>" ++ check (runes_of_ascii "root packet /// triple
-rootA {	i32
-MetaDataX@calculatedFrom( ""CRC32"" ) `line1
-line2` , } MetaData BodyLength {
-u8
-i8, } // c")).
-Eval vm_compute in ("<<<M3479>>>" ++ check (runes_of_ascii "packet
-
-    order_item 
-{
-	u8	a  ,	}
-root 
-packet
-    new_order
-
-    {
-
-    order_item
-
-    ,
-
-    u8 x ,
-    }
+rootA	,u32 options1 `say ""hi""` , @tag( 7
+    )// packet A { u8 x, }
+msg_type @lengthOf(
+stringy	)	, @rightPad
 
 ")).
-Eval vm_compute in ("<<<M1682>>>" ++ check (runes_of_ascii "root packet /// triple
-rootA {	i32
-MetaDataX@calculatedFrom( ""CRC32"" ) `line1
-line2` , }  BodyLength {
-u8
-rootA, } // c")).
-Eval vm_compute in ("<<<M4066>>>" ++ check (runes_of_ascii "packet
-	charz
-
-{  // trailing space 
-@tag(255  )
-
-    @calculatedFrom(
-
-""packet""
-)  u32
-repeatCount
-
-    ,// c
-  }")).
-Eval vm_compute in ("<<<M1813>>>" ++ check (runes_of_ascii "packet
-    Pad // a // b
-{ i8i8 @calculatedFrom( ""a	b""[ `u8 x,` ,
-} options{ float// " ++ [128512]%N ++ runes_of_ascii " emoji
-= f64 i64_
-=//	t
-00 }
-")).
-Eval vm_compute in ("<<<M2992>>>" ++ check (runes_of_ascii "packet A {
-  match k as n {
-    [""a"", ""bb"", ""c c"", ""d"", ""e"", ""f"", ""g"", ""h"", ""i"", ""j"", ""k"", ""l""] : B
-    2 : C
-  },
-}")).
-Eval vm_compute in ("<<<M4143>>>" ++ check (runes_of_ascii "
-packet 
-A
-	{ match	k 
-as
-n
-{
-[
-1
-    ,  22
+Eval vm_compute in ("<<<M2258>>>" ++ check (runes_of_ascii "MetaData Packet { }packet	asx  { @lengthOf( asx i32 falsey`crlf
+line`
 ,
-
-""c c"",  4
-	,
-    5
-, ""f"", 7  ,
-8 ] :
-B ,
-2
-	:
-
-C
     }
-    , }
-")).
-Eval vm_compute in ("<<<M3557>>>" ++ check (runes_of_ascii "
-// @lengthOf(
+    packet x	{uint32// @lengthOf(
+rootA	,u32 options1 `say ""hi""` , @tag( 7
+    )// packet A { u8 x, }
+msg_type @lengthOf(
+stringy	)	, }
 
-	packet o/// triple
-{
-    string 
-pack	,// packet A { u8 x, }
-		trueish  `" ++ [233]%N ++ runes_of_ascii "` ,
-
-}  /// triple")).
-Eval vm_compute in ("<<<M3004>>>" ++ check (runes_of_ascii "packet A {
-    u16 len @lengthOf(body) `a
-b`,
-    u32 crc @calculatedFrom(""CRC32"") `a
-b`,
-    string body,
-}")).
-Eval vm_compute in ("<<<M901>>>" ++ check (runes_of_ascii "
-MetaData x{
-a1 // c
-repeatCount // packet A { u8 x, }
-`" ++ [233]%N ++ runes_of_ascii "` , u64 falsey //	t
-`" ++ [233]%N ++ runes_of_ascii "` ,  i64_ matchKey , }
 ")).
-Eval vm_compute in ("<<<M3351>>>" ++ check (runes_of_ascii "packet calculatedFrom { @tag( 4294967296 ) u // c
-msg_type , char[ 3 ] crc @lengthOf( len ) `u8 x,` , }")).
-Eval vm_compute in ("<<<M2952>>>" ++ check (runes_of_ascii "packet A {
-  match k as n {
-    [""a"", ""bb"", ""c c"", ""d"", ""e"", ""f"", ""g"", ""h"", ""i""] : B,
-    2 : C
-  },
-}")).
-Eval vm_compute in ("<<<M854>>>" ++ check (runes_of_ascii "
-options{ x = ' '
+Eval vm_compute in ("<<<M2379>>>" ++ check (runes_of_ascii "MetaData Packet { }packet	asx  { @lengthOf( asx) falsey`crlf
+line`
+$,
     }
+    packet x	{uint32// @lengthOf(
+rootA	,u32 options1 `say ""hi""` , @tag( 7
+    )// packet A { u8 x, }
+msg_type @lengthOf(
+stringy	)	, }
+
+")).
+Eval vm_compute in ("<<<M2312>>>" ++ check (runes_of_ascii "MetaData Packet { }packet	asx  { @lengthOf( asx) falsey`crlf
+line`
+,
+    }
+    packet x	{uint32// @lengthOf(
+rootA	,options1 u32 `say ""hi""` , @tag( 7
+    )// packet A { u8 x, }
+msg_type @lengthOf(
+stringy	)	, }
+
+")).
+Eval vm_compute in ("<<<M2365>>>" ++ check (runes_of_ascii "MetaData Packet { }packet	asx  { @lengthOf( asx) falsey`crlf
+line`
+,
+    }
+    packet x	{uint32// @lengthOf(
+rootA	,u32 options1 `say ""hi""` , @tag( 7
+    )// packet A { u8 x, }
+msg_type @lengthOf(
+stringy	)	 }
+
+")).
+Eval vm_compute in ("<<<M2280>>>" ++ check (runes_of_ascii "MetaData Packet { }packet	asx  { @lengthOf( asx) falsey`crlf
+line`
+,
+    }
+     x	{uint32// @lengthOf(
+rootA	,u32 options1 `say ""hi""` , @tag( 7
+    )// packet A { u8 x, }
+msg_type @lengthOf(
+stringy	)	, }
+
+")).
+Eval vm_compute in ("<<<M169>>>" ++ check (runes_of_ascii "packet u128 {
+string
+T
+, }
 packet
-//	t
-//x
-matchKey
-    { zchar[ 7 ]o  @calculatedFrom(""it's"" ) ,
+A { Pad { metadata f32a, match  i8i8
+    as //x
+crc { 7:a1,[ ""1"" ] :Foo	, 7
+    : metadata
+    // c
+    , 65535 : pack
+    ,	} , repeat char[] string_, }/// triple
+,
 }
 ")).
-Eval vm_compute in ("<<<M3442>>>" ++ check (runes_of_ascii "packet B {
+Eval vm_compute in ("<<<M973>>>" ++ check (runes_of_ascii "// a // b
+packet/// triple
+tag
+    { match	As as o
+{
+""`tick`"" :
+    float , },	string // c
+u128 `two words` ,	}
+// " ++ [27880; 37322]%N ++ runes_of_ascii "
+// packet A { u8 x, }
+packet lengthOf	{ int64 u	@calculatedFrom( """ ++ [233]%N ++ runes_of_ascii "t" ++ [233]%N ++ runes_of_ascii """ ) ,	}
+")).
+Eval vm_compute in ("<<<M394>>>" ++ check (runes_of_ascii "MetaData  tag
+    {i8 body ,char[]tag , int16 metadata ,
+    // c
+    f64 body`" ++ [28040; 24687; 31867; 22411]%N ++ runes_of_ascii "`
+// a // b
+/// triple
+,
+    char[ // `tick` ""quote"" 'q'
+42 ] rootA, // a // b
+T metadata `say ""hi""`
+, }")).
+Eval vm_compute in ("<<<M4498>>>" ++ check (runes_of_ascii "// @lengthOf(
+MetaData u {
+    char[] float,
+    u8 leftPad `
+        `,
+    // a // b
+    // a // b
+    metadata string_,
+    char[] Header,
+    zchar[0123456789] a1 `
+        `,
+}")).
+Eval vm_compute in ("<<<M3869>>>" ++ check (runes_of_ascii "root packet calculatedFrom {
+    @rightPad()
+    match pack as repeatCount {
+        007 : pack,
+    },
+}
+
+options {
+    As = 00
+    //	t
+    T = '\x00';
+    pack = 00
+}// c")).
+Eval vm_compute in ("<<<M4484>>>" ++ check (runes_of_ascii "
+options { 
+As
+
+=
+string u
+
+    = """ ++ [233]%N ++ runes_of_ascii "t" ++ [233]%N ++ runes_of_ascii """  } 
+packet string_
+
+    {@tag( 3
+
+)
+
+int32
+
+As ,  } root packet
+
+stringy
+	{	//x
+    string
+	int ,
+
+    }	options
+	{ 
+}
+")).
+Eval vm_compute in ("<<<M83>>>" ++ check (runes_of_ascii "packet // trailing space 
+msg_type { repeat string
+// `tick` ""quote"" 'q'
+// @lengthOf(
+BodyLength  `two words`
+// packet A { u8 x, }
+// packet A { u8 x, }
+, }
+")).
+Eval vm_compute in ("<<<M944>>>" ++ check (runes_of_ascii "packet crc {
+    } MetaData/// triple
+Packet { Logon
+    Pad `line1
+line2` ,u8 pack ,// a // b
+} options
+    // c
+    { falsey
+=  ""it's"" len = """ ++ [28040; 24687]%N ++ runes_of_ascii """ ; }
+")).
+Eval vm_compute in ("<<<M4034>>>" ++ check (runes_of_ascii "
+
+  packet A {
+match
+k
+
+    as	n
+
+    { [
+
+""a""
+, ""bb"" ,
+
+    ""c c""	,""d"" ,
+""e""
+,""f"",
+""g""
+, 
+""h""  ,
+	""i""
+	,""j""
+] 
+: 
+B
+,
+
+    2 : C } ,} ")).
+Eval vm_compute in ("<<<M2329>>>" ++ check (runes_of_ascii "MetaData Packet { }packet	asx  { @lengthOf( asx) falsey`crlf
+line`
+,
+    }
+    packet x	{uint32// @lengthOf(
+rootA	,u32 options1 `say ""hi""`")).
+Eval vm_compute in ("<<<M1726>>>" ++ check (runes_of_ascii "root packet /// triple
+r@leftpadootA {	i32
+MetaDataX@calculatedFrom( ""CRC32"" ) `line1
+line2` , } MetaData BodyLength {
+u8
+rootA, } // c")).
+Eval vm_compute in ("<<<M3445>>>" ++ check (runes_of_ascii "options {
+    LittleEndian = true;
+}
+packet B {
     u8 a,
     string s,
 }
@@ -2244,209 +1990,362 @@ root packet P {
     u8 t,
 }
 ")).
-Eval vm_compute in ("<<<M3233>>>" ++ check (runes_of_ascii "packet Logon { @tag( 42 ) @rightPad ( ' '
+Eval vm_compute in ("<<<M1708>>>" ++ check (runes_of_ascii "root packet /// triple
+rootA {	i32
+MetaDataX@calculatedFrom( ""CRC32"" ) `line1
+line2` , } MetaData BodyLength {
+u8
+rootA, , } // c")).
+Eval vm_compute in ("<<<M1679>>>" ++ check (runes_of_ascii "root packet /// triple
+rootA {	i32
+MetaDataX@calculatedFrom( ""CRC32"" ) `line1
+line2` , MetaData } BodyLength {
+u8
+rootA, } // c")).
+Eval vm_compute in ("<<<M4064>>>" ++ check (runes_of_ascii "packet
+calculatedFrom
+
+{@tag( 
+4294967296
+)
+    u msg_type
+	, char[
+3]
+
+crc @lengthOf(
+	len
+
+    )
+    `u8 x,` 
+,	// c
+	}")).
+Eval vm_compute in ("<<<M4437>>>" ++ check (runes_of_ascii "packet
+	calculatedFrom	{@tag(
+    4294967296
+
+) u 
+    // c
+    msg_type, char[
+
+3 
+]
+    crc @lengthOf( len )`u8 x,`
+	, }
+")).
+Eval vm_compute in ("<<<M1715>>>" ++ check (runes_of_ascii "root packet /// triple
+rootA {	i32
+MetaDataX@calculatedFrom( ""CRC32"" ) `line1
+line2` , } MetaData BodyLength {
+u8
+rootA,")).
+Eval vm_compute in ("<<<M1788>>>" ++ check (runes_of_ascii "packet
+    ""x y"" // a // b
+{ i8i8 @calculatedFrom( ""a	b"") `u8 x,` ,
+} options{ float// " ++ [128512]%N ++ runes_of_ascii " emoji
+= f64 i64_
+=//	t
+00 }
+")).
+Eval vm_compute in ("<<<M1892>>>" ++ check (runes_of_ascii "packet
+    Pad // a // b
+{ i8i8 @calculatedFrom( ""a	b"") `u8 x,` ,
+} options{ float// " ++ [128512]%N ++ runes_of_ascii " emoji
+= f64 i6'4_
+=//	t
+00 }
+")).
+Eval vm_compute in ("<<<M1858>>>" ++ check (runes_of_ascii "packet
+    Pad // a // b
+{ i8i8 @calculatedFrom( ""a	b"") `u8 x,` ,
+} options{ float// " ++ [128512]%N ++ runes_of_ascii " emoji
+= f64 char
+=//	t
+00 }
+")).
+Eval vm_compute in ("<<<M1378>>>" ++ check (runes_of_ascii "packet f32a
+    {int16 int
+    ,
+    } MetaData f32a { char i8i8 , /// triple
+string Pad, zchar
+f32a ,
+    x	T,
+}
+")).
+Eval vm_compute in ("<<<M446>>>" ++ check (runes_of_ascii "MetaData
+body { int64 pack ,	i16 len,	o x ,	uint8
+u128 , string calculatedFrom `two words`
+, u64 len
+    , } //")).
+Eval vm_compute in ("<<<M3028>>>" ++ check (runes_of_ascii "packet A {
+    u16 len @lengthOf(body) `a
+
+b`,
+    u32 crc @calculatedFrom(""CRC32"") `a
+
+b`,
+    string body,
+}")).
+Eval vm_compute in ("<<<M217>>>" ++ check (runes_of_ascii "packet i8i8  { lengthOf lengthOf
+    `u8 x,`
+, }options{u =
+'\x00'; } MetaData i64_ {
+}MetaData Header {}")).
+Eval vm_compute in ("<<<M3451>>>" ++ check (runes_of_ascii "options {
+    LittleEndian = true;
+}
+root packet P {
+    u16 a,
+    u32 Sum @calculatedFrom(""CRC32""),
+}
+")).
+Eval vm_compute in ("<<<M3358>>>" ++ check (runes_of_ascii "packet calculatedFrom { @tag( 4294967296 ) u msg_type , char[
 // c
-) @leftPad ( ) repeat trueish { string T , } , }")).
-Eval vm_compute in ("<<<M1375>>>" ++ check (runes_of_ascii "options	{
-    repeatCount='0'
-    roots =
-""\" ++ [233]%N ++ runes_of_ascii """  ;int =
-f64
-Packet =
-'\x00' ;
-Z9_ = ""a\""b"" ; }")).
-Eval vm_compute in ("<<<M1987>>>" ++ check (runes_of_ascii "root
-packet crc
-    { f32a @calculatedFrom( """ ++ [233]%N ++ runes_of_ascii "t" ++ [233]%N ++ runes_of_ascii """ """ ++ [233]%N ++ runes_of_ascii "t" ++ [233]%N ++ runes_of_ascii """ )
-    `say ""hi""`, lengthOf `` ,  }")).
-Eval vm_compute in ("<<<M2963>>>" ++ check (runes_of_ascii "packet A {
+3 ] crc @lengthOf( len ) `u8 x,` , }")).
+Eval vm_compute in ("<<<M62>>>" ++ check (runes_of_ascii "
+options{metadata
+    =
+// @lengthOf(
+// @lengthOf(
+""a	b"" u = 0
+; // trailing space 
+i8i8 = 0
+;	} 	 ")).
+Eval vm_compute in ("<<<M2970>>>" ++ check (runes_of_ascii "packet A {
   match k as n {
-    [1, 22, 007, 4, 5, 66, 7, 8, 9, 10] : B,
+    [""a"", 22, ""c c"", 4, ""e"", 66, ""g"", 8, ""i"", 10] : B
     2 : C
   },
 }")).
-Eval vm_compute in ("<<<M4116>>>" ++ check (runes_of_ascii "MetaData Packet {
+Eval vm_compute in ("<<<M4431>>>" ++ check (runes_of_ascii "
+packet
+
+    A
+{
+
+match	k
+    as
+
+n 
+{
+
+[ ""a"" 
+,
+    ""bb"" ]	: B ,2  :
+    C 
 }
 
-packet asx {
-    @lengthOf(asx)
-    falsey `crlf
-        line`,
-}")).
-Eval vm_compute in ("<<<M1998>>>" ++ check (runes_of_ascii "root
+    ,
+    }")).
+Eval vm_compute in ("<<<M3234>>>" ++ check (runes_of_ascii "packet Logon { @tag( 42 ) @rightPad ( ' ' ) // c
+@leftPad ( ) repeat trueish { string T , } , }")).
+Eval vm_compute in ("<<<M2007>>>" ++ check (runes_of_ascii "root
 packet crc
     { f32a @calculatedFrom( """ ++ [233]%N ++ runes_of_ascii "t" ++ [233]%N ++ runes_of_ascii """ )
-    ,`say ""hi""` lengthOf `` ,  }")).
-Eval vm_compute in ("<<<M1233>>>" ++ check (runes_of_ascii "
-MetaData
-    u128 {
-a1 Header , u
-i64_,
-    char[]
-    Logon ,
-    int64 crc , }
-")).
-Eval vm_compute in ("<<<M2938>>>" ++ check (runes_of_ascii "packet A {
+    `say ""hi""`, lengthOf lengthOf `` ,  }")).
+Eval vm_compute in ("<<<M271>>>" ++ check (runes_of_ascii "packet BodyLength { @tag(	007
+)
+char[ 65535
+]
+    string_
+`u8 x,`,
+    // @lengthOf(
+    }")).
+Eval vm_compute in ("<<<M2294>>>" ++ check (runes_of_ascii "MetaData Packet { }packet	asx  { @lengthOf( asx) falsey`crlf
+line`
+,
+    }
+    packet x")).
+Eval vm_compute in ("<<<M2289>>>" ++ check (runes_of_ascii "MetaData Packet { }packet	asx  { @lengthOf( asx) falsey`crlf
+line`
+,
+    }
+    packet")).
+Eval vm_compute in ("<<<M2931>>>" ++ check (runes_of_ascii "packet A {
   match k as n {
-    [1, 22, 007, 4, 5, 66, 7, 8] : B
+    [""a"", 22, ""c c"", 4, ""e"", 66, ""g""] : B
     2 : C
   },
 }")).
-Eval vm_compute in ("<<<M3324>>>" ++ check (runes_of_ascii "packet o { @tag( 42 ) repeat x { char[ 0123456789 ] i64_ , } , // c
-} options { }")).
-Eval vm_compute in ("<<<M1250>>>" ++ check (runes_of_ascii "
-options
-    // " ++ [128512]%N ++ runes_of_ascii " emoji
-    {
-lengthOf =
-    f64 ;body=
-    true ; } // a // b")).
-Eval vm_compute in ("<<<M677>>>" ++ check (runes_of_ascii "options {
-leftPad = string u128  =
-    ""abc""
-uint8x = """ ++ [128512]%N ++ runes_of_ascii """Z9_ = 0123456789}
+Eval vm_compute in ("<<<M972>>>" ++ check (runes_of_ascii "options	{ string_ =  '\x00'
+    rootA // trailing space 
+= u8; Foo =""a\\""//
+;
+    }
 ")).
-Eval vm_compute in ("<<<M2172>>>" ++ check (runes_of_ascii "root
-    // `tick` ""quote"" 'q'
-    packet As { trueish trueish Packet , }
+Eval vm_compute in ("<<<M4453>>>" ++ check (runes_of_ascii "
+// top
+	options	// c0
+{  // c1
+  u8x  // c2
+    =  // c3
+3  // c4
+  } // c5
+ 
 ")).
-Eval vm_compute in ("<<<M146>>>" ++ check (runes_of_ascii "// `tick` ""quote"" 'q'
-options { leftPad =float32
-} root
-packet o
-{ }
-")).
-Eval vm_compute in ("<<<M3396>>>" ++ check (runes_of_ascii "MetaData
+Eval vm_compute in ("<<<M3301>>>" ++ check (runes_of_ascii "packet o { @tag(
 // c
-_x { zchar[ 4294967296 ] lengthOf `// not a comment` , }")).
-Eval vm_compute in ("<<<M3877>>>" ++ check (runes_of_ascii "root packet crc {
-    f32a @calculatedFrom(""" ++ [233]%N ++ runes_of_ascii "t" ++ [233]%N ++ runes_of_ascii """),
-    lengthOf ``,
-}")).
-Eval vm_compute in ("<<<M2005>>>" ++ check (runes_of_ascii "root
-packet crc
-    { f32a @calculatedFrom( """ ++ [233]%N ++ runes_of_ascii "t" ++ [233]%N ++ runes_of_ascii """ )
-    `say ""hi""`")).
-Eval vm_compute in ("<<<M2936>>>" ++ check (runes_of_ascii "packet A { Inner { match k as n { [1,22,007,4,5,66,7] : B, }, }, }")).
-Eval vm_compute in ("<<<M3268>>>" ++ check (runes_of_ascii "options { // c1
-u8x // c2a
-  // c2b
-= // c3a
-  // c3b
-3 } // c5
-")).
-Eval vm_compute in ("<<<M214>>>" ++ check (runes_of_ascii "
-MetaData string_ {Header
-    roots ,} MetaData
-MetaDataX	{ }")).
-Eval vm_compute in ("<<<M3931>>>" ++ check (runes_of_ascii "MetaData
-	repeatCount 
-{T
-matchKey  ,float
-
-    Packet ,
-}")).
-Eval vm_compute in ("<<<M4452>>>" ++ check (runes_of_ascii "root packet  P  {
-
-repeat	string ss	, repeat
-u16	ns
-, }
-
-")).
-Eval vm_compute in ("<<<M1951>>>" ++ check (runes_of_ascii "
-packet	As { @calculatedFrom(//x
-""{,}""	)lengthOf , } 	 " ++ [8232]%N)).
-Eval vm_compute in ("<<<M1920>>>" ++ check (runes_of_ascii "
-packet	As { @calculatedFrom(//x
-""{,}""	lengthOf , } 	 ")).
-Eval vm_compute in ("<<<M475>>>" ++ check (runes_of_ascii "packet i64_{@calculatedFrom( ""\" ++ [233]%N ++ runes_of_ascii """
-    )u16 a1
-, }
-")).
-Eval vm_compute in ("<<<M4013>>>" ++ check (runes_of_ascii "
-MetaData matchKey{	Packet  As//	t
-      `" ++ [233]%N ++ runes_of_ascii "` 
-,} ")).
-Eval vm_compute in ("<<<M2416>>>" ++ check (runes_of_ascii "A MetaData
+42 ) repeat x { char[ 0123456789 ] i64_ , } , } options { }")).
+Eval vm_compute in ("<<<M3826>>>" ++ check (runes_of_ascii "
+MetaData matchKey
 {
-i64
-chars	, } // `tick` ""quote"" 'q'")).
-Eval vm_compute in ("<<<M3379>>>" ++ check (runes_of_ascii "// top
-packet
-    // c0
-lengthOf {
-    // c2
-} ")).
-Eval vm_compute in ("<<<M2139>>>" ++ check (runes_of_ascii "'\x01' MetaData x
-{// " ++ [128512]%N ++ runes_of_ascii " emoji
-i16 stringy , }")).
-Eval vm_compute in ("<<<M1603>>>" ++ check (runes_of_ascii "root packet Foo // " ++ [128512]%N ++ runes_of_ascii " emoji
-{ } options {
-  ")).
-Eval vm_compute in ("<<<M76>>>" ++ check (runes_of_ascii "options { repeatCount= 00 ; }
-// " ++ [128512]%N ++ runes_of_ascii " emoji
+}MetaData  rootA
+
+    { 	 //	t
+  falsey
+    stringy
+,}
 ")).
-Eval vm_compute in ("<<<M1755>>>" ++ check (runes_of_ascii "options { }as {  } // `tick` ""quote"" 'q'")).
-Eval vm_compute in ("<<<M3202>>>" ++ check (runes_of_ascii "MetaData zchar { zchar[ 3 ] Pad // c
-, }")).
+Eval vm_compute in ("<<<M3057>>>" ++ check (runes_of_ascii "packet A {
+    u32 crc @calculatedFrom(""\
+""),
+    @calculatedFrom(""\
+"") u8 y,
+}")).
+Eval vm_compute in ("<<<M40>>>" ++ check (runes_of_ascii "  root
+    packet falsey
+{}
+/// triple
+// " ++ [27880; 37322]%N ++ runes_of_ascii "
+options {}
+// trailing space 
+")).
+Eval vm_compute in ("<<<M1984>>>" ++ check (runes_of_ascii "root
+packet crc
+    { f32a char[ """ ++ [233]%N ++ runes_of_ascii "t" ++ [233]%N ++ runes_of_ascii """ )
+    `say ""hi""`, lengthOf `` ,  }")).
+Eval vm_compute in ("<<<M2898>>>" ++ check (runes_of_ascii "packet A {
+  match k as n {
+    [1, 22, 007, 4, 5] : B,
+    2 : C
+  },
+}")).
+Eval vm_compute in ("<<<M2962>>>" ++ check (runes_of_ascii "packet A { Inner { match k as n { [1,22,007,4,5,66,7,8,9] : B, }, }, }")).
+Eval vm_compute in ("<<<M2879>>>" ++ check (runes_of_ascii "packet A {
+  match k as n {
+    [""a"", 22, ""c c""] : B
+    2 : C
+  },
+}")).
+Eval vm_compute in ("<<<M3807>>>" ++ check (runes_of_ascii "options { Z9_  =
+	""" ++ [233]%N ++ runes_of_ascii "t" ++ [233]%N ++ runes_of_ascii """
+;
+
+rootA
+	=
+	string
+;}	// trailing space 
+")).
+Eval vm_compute in ("<<<M2660>>>" ++ check (runes_of_ascii "options { a = char[3]; b = zchar[0] c = char[] d = string e = u8 }")).
+Eval vm_compute in ("<<<M2161>>>" ++ check (runes_of_ascii "root
+    // `tick` ""quote"" 'q'
+    packet  { trueish Packet , }
+")).
+Eval vm_compute in ("<<<M3810>>>" ++ check (runes_of_ascii "packet rootA {
+    int @lengthOf(Packet) `// not a comment`,
+}")).
+Eval vm_compute in ("<<<M228>>>" ++ check (runes_of_ascii "packet Z9_
+    { body MetaDataX , } MetaData asx  {
+} //	t")).
+Eval vm_compute in ("<<<M4392>>>" ++ check (runes_of_ascii "MetaData charz {
+    zchar[42] packetx `crlf
+    line`,
+}")).
+Eval vm_compute in ("<<<M1947>>>" ++ check (runes_of_ascii "
+packet	As { @calculatedFrom(//x
+""{,}""	" ++ [233]%N ++ runes_of_ascii ")lengthOf , } 	 ")).
+Eval vm_compute in ("<<<M1935>>>" ++ check (runes_of_ascii "
+packet	As { @calculatedFrom(//x
+""{,}""	)lengthOf ,  	 ")).
+Eval vm_compute in ("<<<M1081>>>" ++ check (runes_of_ascii "options {i64_ =""x y"" _x =  int32 i64_ = '0' } // " ++ [27880; 37322]%N)).
+Eval vm_compute in ("<<<M406>>>" ++ check (runes_of_ascii "options
+    {} packet
+_x
+{
+}packet
+matchKey { }
+")).
+Eval vm_compute in ("<<<M2422>>>" ++ check (runes_of_ascii "MetaData A
+i64
+{
+chars	, } // `tick` ""quote"" 'q'")).
+Eval vm_compute in ("<<<M3897>>>" ++ check (runes_of_ascii "MetaData charz {
+    char[7] body `tab	here`,
+}")).
+Eval vm_compute in ("<<<M1754>>>" ++ check (runes_of_ascii "options { }{ options  } // `tick` ""quote"" 'q'")).
+Eval vm_compute in ("<<<M732>>>" ++ check (runes_of_ascii "options {
+calculatedFrom
+= f64
+} // a // b")).
+Eval vm_compute in ("<<<M3050>>>" ++ check (runes_of_ascii "options {
+    a = ""x\
+y"";
+    b = ""x\
+y""
+}")).
+Eval vm_compute in ("<<<M1448>>>" ++ check (runes_of_ascii "root packet Foo // " ++ [128512]%N ++ runes_of_ascii " emoji
+{ } options {")).
+Eval vm_compute in ("<<<M3201>>>" ++ check (runes_of_ascii "MetaData zchar { zchar[ 3 ]
+// c
+Pad , }")).
 Eval vm_compute in ("<<<M980>>>" ++ check (runes_of_ascii "options
 // a // b
 // @lengthOf(
 { } 	 ")).
-Eval vm_compute in ("<<<M2105>>>" ++ check (runes_of_ascii "MetaData 
-{// " ++ [128512]%N ++ runes_of_ascii " emoji
-i16 stringy , }")).
-Eval vm_compute in ("<<<M3153>>>" ++ check (runes_of_ascii "options { a = 1 // c b = 2; // d}")).
-Eval vm_compute in ("<<<M2618>>>" ++ check (runes_of_ascii "packet A { @tag(1) @tag(2) u8 x, }")).
-Eval vm_compute in ("<<<M2563>>>" ++ check (runes_of_ascii "packet A { repeat repeat u8 x, }")).
-Eval vm_compute in ("<<<M4413>>>" ++ check (runes_of_ascii "packet A {
-    u8 x `x
-    `,
+Eval vm_compute in ("<<<M798>>>" ++ check (runes_of_ascii "options{ asx = u64 ; string_ = 10 }
+")).
+Eval vm_compute in ("<<<M3049>>>" ++ check (runes_of_ascii "root packet A {
+    u8 x `tab
+	x`,
 }")).
-Eval vm_compute in ("<<<M3133>>>" ++ check (runes_of_ascii "packet A {
- u8 x `d" ++ [8203]%N ++ runes_of_ascii "`, // c" ++ [8203]%N ++ runes_of_ascii "
-}")).
-Eval vm_compute in ("<<<M2074>>>" ++ check (runes_of_ascii "MetaData A { u64 pack char }")).
-Eval vm_compute in ("<<<M2837>>>" ++ check (runes_of_ascii "O" ++ [65533; 8; 1374; 65533; 65533; 65533]%N ++ runes_of_ascii "w" ++ [65533]%N ++ runes_of_ascii "I" ++ [65533; 65533; 65533; 65533]%N ++ runes_of_ascii "`1" ++ [65533]%N ++ runes_of_ascii "+" ++ [65533]%N ++ runes_of_ascii ">" ++ [65533; 1492; 23; 65533]%N ++ runes_of_ascii "<q" ++ [65533]%N)).
-Eval vm_compute in ("<<<M4061>>>" ++ check (runes_of_ascii "
-MetaData
-float	{
-    } ")).
-Eval vm_compute in ("<<<M3747>>>" ++ check (runes_of_ascii "packet
-A{
+Eval vm_compute in ("<<<M2805>>>" ++ check (runes_of_ascii "`// not a comment` int64 int8 true")).
+Eval vm_compute in ("<<<M2836>>>" ++ check (runes_of_ascii "root float64 } packet true i32 ,")).
+Eval vm_compute in ("<<<M1336>>>" ++ check (runes_of_ascii "MetaData Packet{  }
+// a // b
+")).
+Eval vm_compute in ("<<<M3882>>>" ++ check (runes_of_ascii "
+packet	A 
+{x y `d`
+,
+    }
+")).
+Eval vm_compute in ("<<<M2777>>>" ++ check (runes_of_ascii "= u128 u8 u16 char u16 false")).
+Eval vm_compute in ("<<<M4151>>>" ++ check (runes_of_ascii "
 
-    } // c" ++ [8239]%N ++ runes_of_ascii "
-")).
-Eval vm_compute in ("<<<M3279>>>" ++ check (runes_of_ascii "options { u8x = 3 // c
+  MetaData
+leftPad
+{ } ")).
+Eval vm_compute in ("<<<M614>>>" ++ check (runes_of_ascii "MetaData repeatCount {
 }")).
-Eval vm_compute in ("<<<M23>>>" ++ check (runes_of_ascii "packet BodyLength { }
-")).
-Eval vm_compute in ("<<<M1390>>>" ++ check (runes_of_ascii "MetaData
-Header	{  }
-")).
-Eval vm_compute in ("<<<M2642>>>" ++ check (runes_of_ascii "MetaData M { u8 x, }")).
-Eval vm_compute in ("<<<M3126>>>" ++ check (runes_of_ascii "packet A {
+Eval vm_compute in ("<<<M722>>>" ++ check (runes_of_ascii "packet
+MetaDataX
+    { }")).
+Eval vm_compute in ("<<<M3382>>>" ++ check (runes_of_ascii "packet // c
+lengthOf { }")).
+Eval vm_compute in ("<<<M4347>>>" ++ check (runes_of_ascii "packet rootA {
+    //
+}")).
+Eval vm_compute in ("<<<M1874>>>" ++ check (runes_of_ascii "packet
+    Pad // a /")).
+Eval vm_compute in ("<<<M2663>>>" ++ check (runes_of_ascii "options { a = `d`; }")).
+Eval vm_compute in ("<<<M3146>>>" ++ check (runes_of_ascii "packet A {
 }
-// c 	")).
-Eval vm_compute in ("<<<M3076>>>" ++ check (runes_of_ascii "packet A {
+// c x")).
+Eval vm_compute in ("<<<M3066>>>" ++ check (runes_of_ascii "packet A {
 }
-// c" ++ [133]%N)).
-Eval vm_compute in ("<<<M37>>>" ++ check (runes_of_ascii "MetaData charz{ }")).
-Eval vm_compute in ("<<<M3119>>>" ++ check (runes_of_ascii "packet A {
-}// c" ++ [12]%N)).
-Eval vm_compute in ("<<<M1428>>>" ++ check (runes_of_ascii "root packet Foo")).
-Eval vm_compute in ("<<<M755>>>" ++ check (runes_of_ascii "
- // " ++ [128512]%N ++ runes_of_ascii " emoji")).
-Eval vm_compute in ("<<<M861>>>" ++ check (runes_of_ascii "// a // b
+// c" ++ [12288]%N)).
+Eval vm_compute in ("<<<M3159>>>" ++ check (runes_of_ascii "MetaData M {
+}// c")).
+Eval vm_compute in ("<<<M3104>>>" ++ check (runes_of_ascii "packet A {
+}// c" ++ [8239]%N)).
+Eval vm_compute in ("<<<M1217>>>" ++ check (runes_of_ascii "MetaData o { }
 ")).
-Eval vm_compute in ("<<<M2481>>>" ++ check (runes_of_ascii "@leftpad")).
-Eval vm_compute in ("<<<M2426>>>" ++ check (runes_of_ascii "char [")).
-Eval vm_compute in ("<<<M2458>>>" ++ check (runes_of_ascii "roots")).
-Eval vm_compute in ("<<<M50>>>" ++ check (runes_of_ascii "//
-
-")).
-Eval vm_compute in ("<<<M2436>>>" ++ check (runes_of_ascii "u8x")).
-Eval vm_compute in ("<<<M205>>>" ++ check (runes_of_ascii "
-
-")).
-Eval vm_compute in ("<<<M2532>>>" ++ check (runes_of_ascii "_")).
+Eval vm_compute in ("<<<M2668>>>" ++ check (runes_of_ascii "options A { }")).
+Eval vm_compute in ("<<<M1052>>>" ++ check (runes_of_ascii "options {}")).
+Eval vm_compute in ("<<<M2806>>>" ++ check ([65533]%N ++ runes_of_ascii ">e" ++ [65533]%N ++ runes_of_ascii "ka(" ++ [65533]%N)).
+Eval vm_compute in ("<<<M2466>>>" ++ check (runes_of_ascii "Packet")).
+Eval vm_compute in ("<<<M2519>>>" ++ check (runes_of_ascii "`a
+b`")).
+Eval vm_compute in ("<<<M2443>>>" ++ check (runes_of_ascii "i8i8")).
+Eval vm_compute in ("<<<M2497>>>" ++ check (runes_of_ascii "///")).
+Eval vm_compute in ("<<<M2495>>>" ++ check (runes_of_ascii "//")).
+Eval vm_compute in ("<<<M2680>>>" ++ check (runes_of_ascii "")).
